@@ -5,8 +5,10 @@ import (
 	"go/constant"
 	"go/token"
 	"go/types"
+	"os"
 	"sort"
 	"strings"
+	"time"
 
 	"golang.org/x/tools/go/ssa"
 )
@@ -17,41 +19,46 @@ import (
 // All rules work on enumerated acyclic CFG paths of small functions (the planner
 // predicates and pickCandidateSource) with phi resolution per path, or on
 // dominating facts / assumption-pruned reachability in the executor (Query).
+// "Function" always means its EFFECTIVE BODY: the function plus the unexported
+// same-package helpers and the literals it calls statically (c08XPath for the
+// path-based rules, c08Frame / c08Walk for the fact- and reachability-based
+// ones), so that extracting a helper, splitting a function, turning a closure
+// into a method or re-shaping control flow leaves the verdicts unchanged.
 
 func init() {
 	register(&PropSpec{
 		ID:    "C08",
 		Title: "A search returns exactly the matching blobs, however it is planned",
-		Explanation: "Decided (structural necessary conditions, pkg/search/query.go): " +
+		Explanation: "Decided (structural necessary conditions, pkg/search/query.go). Every rule reads the EFFECTIVE BODY of the function it is about: the function plus, transitively (depth 5), the unexported same-package functions/methods and the function literals it calls statically; a parameter of such a helper stands for the caller's argument, a result of a followed call for what the helper returns (on the path taken), a field of a state struct that is stored exactly once in the module for the stored value (closure turned into a method). The planner and its predicates are read off composite acyclic paths (one path through the function and one through every helper entered on it; a helper entered a second time on one path, one with a loop, or another planner predicate stays an opaque call); the executor by dominating facts that include the facts at the calls leading to a helper, and by a path exploration that enters helpers at their calls and comes back through their returns, remembering which return was taken (so `err != nil` after a helper is decided when it returned nil or a never-nil error expression). Planner predicates are found by role (the recursive *Constraint methods the planner's effective body calls, plus the four named in the property), the executor by role (the caller of the planner), the planner's result type and its fields by role (the one string = name, the one bool = sorted flag, the one function = send). " +
 			"P-restrict — for every planner predicate (the *Constraint methods called from pickCandidateSource), on every acyclic CFG path to a return: a result that may restrict the candidates (true / possibly-valid ref / possibly non-empty slice) and that is obtained from a recursive call on an operand of c.Logical (by data flow, or for booleans by a positive branch on the recursive result) is returned only where the path establishes Op==\"and\", or Op==\"or\" together with restricting results from BOTH operands (and, for set/ref-valued predicates, a value built from both); under any other or no Op fact it is a violation; recursion on anything but c.Logical.A/B is undecided. " +
 			"P-leaf — for every restricting leaf path of a planner predicate (a path whose possibly restricting result is justified by the constraint's own fields, not by recursion): the fields the result relies on are reconstructed per constraint struct instance reached from the receiver (c, c.Permanode, c.File, c.Permanode.ValueMatches, ...): a field counts as tested when a branch on the path reads it AND taking the other edge leads to a different return statement or value (control dependence), or when the returned value is computed from it; small helpers that receive a constraint struct (e.g. a method on *StringConstraint) are followed path by path; what the path knows about each tested field (unset / set / == constant / bool method result) is kept. For each such struct the matcher is located from the code ((*Constraint).matcher() returns field matcherFn, whose only assignment is genMatcher's result; a sub-struct's matcher is the one method bound to / called on that field's value inside the parent's matcher family) and every OTHER field F of the struct that the matcher family reads (the matcher, the functions it hands the same struct to, its literals; blocks dead under the path's facts pruned) must be NARROWING: every branch whose outcome depends on F being set (a comparison of F with its zero value, a bool field, IsZero()/Valid() of it, a pure boolean helper such as hasValueConstraint whose result reacts monotonically to F — decided by exhaustive evaluation —, also through `x := a || b; if x` forwarding blocks and through a table of plain field getters resolved from the stores into the table's struct type) has a set side that, compared with the unset side, can only leave through panic / `return false` / a non-nil error (matcher builders: only calls the one literal that stores the added condition) and otherwise rejoins the unset side's code at one block with the same state (no phi at the join selects a different value for the two sides unless all its uses are again guarded by F's set-test or are dead because the fields whose tests the unset side passed are unset; no assignment to locals read later), or the unset side unconditionally reports a match; every other use of F's value lies inside a region dominated by the set-edge of such a test. A field whose set side returns a verdict of its own, changes a value the shared code uses afterwards (CaseInsensitive selecting the comparison table in stringMatches), or whose unset side performs a rejecting test the set side skips is MODAL: ignoring it in the predicate is a violation. A field used as a parameter outside its own guard, a constraint pointer that escapes, or a shape not covered is undecided. One recorded exception, re-checked structurally: matchesPermanodeTypes ignores PermanodeConstraint.At (only handed on as the time.Time argument of look-ups) because Corpus.permanodesSetByNodeType is add-only (no delete, fresh maps only, entries only set to true). genMatcher's combination of added conditions is checked as far as: allMustMatch.blobMatches leaves its loop early only with false/an error. " +
 			"P-nil-operand — a recursive call on operand B happens only under an Op fact for which checkValid guarantees B (and/or/xor), unless the predicate tolerates a nil receiver (every receiver dereference is under c!=nil). " +
-			"P-sorted — on every path of pickCandidateSource the returned source has a constant 'sorted'; sorted==true only with the enumerator that yields the requested order (EnumeratePermanodesLastModified under q.Sort==LastModifiedDesc, EnumeratePermanodesCreated(fn,true) under q.Sort==CreatedDesc). " +
+			"P-sorted — on every composite path of pickCandidateSource the returned source (reconstructed field by field from the field stores, whole-struct assignments, composite literals and constructor-helper results on the path) has a constant 'sorted'; sorted==true only with the enumerator that yields the requested order (EnumeratePermanodesLastModified under q.Sort==LastModifiedDesc, EnumeratePermanodesCreated(fn,true) under q.Sort==CreatedDesc; the bool may be a guard the path branched on). The enumerator is the call, in the send function's effective body, that receives send's callback. " +
 			"P-source-superset — every source is built from a classified enumerator and a restricted enumerator is entered only on paths where the predicate that justifies it returned a restricting result for q.Constraint (permanode enumerations under onlyMatchesPermanode; by-node-type with the very slice returned by matchesPermanodeTypes known non-empty; single blob with the very ref returned by matchesAtMostOneBlob known valid; camli blobs of type file under matchesFileByWholeRef; camli blobs of c.CamliType under AnyCamliType||CamliType!=\"\"); the executor compiles the matcher from the same constraint the planner looked at. " +
-			"P-match — in the enumeration callback a result is appended only where the matcher returned (true, nil). " +
+			"P-match — in the enumeration callback (a literal, a declared function or a bound method handed to <planner result>.send; its effective body) a result is appended only where the one call of the compiled matcher returned (true, nil). " +
 			"P-limit — in the callback every action that can lose results (stopping the enumeration, shrinking res.Blobs) is on the matcher-error path or under the fact cands.sorted. " +
-			"P-postsort — with an unsorted source, for every SortType constant that requests an order, every path from the enumeration to a return of a non-nil result passes a sort call (or the query is refused with an error). " +
+			"P-postsort — with an unsorted source, for every SortType constant that requests an order, every path from the enumeration (wherever in the executor's effective body the send call sits) to a return of a non-nil result passes a sort call, in the executor or in a helper it calls (or the query is refused with an error; an executor without a *SearchResult result must return a never-nil error). " +
 			"P-truncate — with an unsorted source, 0 < Limit < len(res.Blobs) and any sort but MapSort, every such path truncates res.Blobs by a bounded slice. " +
-			"P-nodup — every corpus enumerator a source is built from hands each blob to the callback at most once as far as its loop structure shows: the callback is invoked (directly or through one same-package helper) inside at most one loop, i.e. one pass over one collection; an invocation nested in two or more loops (several collections, or caller-supplied keys) must be guarded by a look-up in a map made in that function (a 'seen' set), or be a recorded exception (one symbol, one reason). " +
-			"P-memo — every branch in pkg/search on a map membership test m[k] whose 'found' edge bypasses a matcher call (a call returning bool or (bool, error) that takes k as a blob.Ref and has the matchFn signature, or is a pkg/search function working on a *search such as RelationConstraint.match, or is a helper / local literal that itself makes such a call on the parameter k arrives in) on that same k is a skip guard; today: permanodesChecked in the claim callback of (*RelationConstraint).match. For a memo map local to one invocation, every value that can become a key (the key of each map update, followed through all stores of the variables that feed it, e.g. lastChecked; zero-value resets excluded) must be remembered only where its evaluation completed: the assignment is dominated by the success edge (error result known nil) of a matcher call on that same value, or every path from the assignment to an exit of the callback passes such an edge, except exits that return false from a callback whose enumerators (resolved through phi / bound-method thunks, here Corpus.ForeachClaim and ForeachClaimBack) provably never call it again after false, with the memo consulted nowhere else. A remembered value that no matcher call evaluates, a memo whose map or feeder variables escape, and a guard on a map shared beyond one invocation (could be a traversal visited-set, where marking first is correct) are undecided. Set membership tests keyed by blob refs that bypass no matcher call (dr.started: started-set of the describe traversal; resFromRule: membership filter) are listed as classified, not judged. " +
-			"NOT decided: the meaning of each leaf constraint and the base case of each leaf (e.g. that a PermanodeConstraint{Attr:camliNodeType, Value:T} with every other field unset only matches permanodes in the by-type set of T; that a predicate which does test a modal field draws the right conclusion from it); that a caller combines a sub-matcher's verdicts monotonically (the nmatch count in permanodeMatchesAttrVals) and that genMatcher's addCond bookkeeping retains every added condition; matcher semantics per constraint kind, that the enumerators really enumerate a superset in the claimed order, that a single collection holds each blob once, that a memoised verdict is still valid for the later occurrence of the key (the memo key captures everything the verdict depends on), memos kept in anything but a map (slices, sorted lists), the sort comparators and which slice is sorted, the Around window arithmetic, MapSort selection, any concrete world or query.",
+			"P-nodup — every corpus enumerator a source is built from hands each blob to the callback at most once as far as its loop structure shows: the callback is invoked (directly or through one same-package helper) inside at most one loop, i.e. one pass over one collection; an invocation nested in two or more loops (several collections, or caller-supplied keys) must be guarded by a look-up in a map made in the enumerator's effective body (a 'seen' set; the guard may sit in the helper that invokes the callback, with the set handed in, or at a call leading to it), or be a recorded exception (one symbol, one reason). " +
+			"P-memo — every branch in pkg/search on a map membership test m[k] whose 'found' edge bypasses a matcher call (a call returning bool or (bool, error) that takes k as a blob.Ref and has the matchFn signature, or is a pkg/search function working on a *search such as RelationConstraint.match, or is a helper / local literal that itself makes such a call on the parameter k arrives in) on that same k is a skip guard; today: permanodesChecked in the claim callback of (*RelationConstraint).match. For a memo map local to one invocation, every value that can become a key (the key of each map update, followed through all stores of the variables that feed it, e.g. lastChecked; zero-value resets excluded) must be remembered only where its evaluation completed: the assignment is dominated by the success edge (error result known nil) of a matcher call on that same value, or every path from the assignment to an exit of the callback passes such an edge, except exits that return false from a callback whose enumerators (resolved through phi / bound-method thunks, here Corpus.ForeachClaim and ForeachClaimBack) provably never call it again after false (also when they hand the callback on, outside any loop, to one static helper that has this property), with the memo consulted nowhere else. A remembered value that no matcher call evaluates, a memo whose map or feeder variables escape, and a guard on a map shared beyond one invocation (could be a traversal visited-set, where marking first is correct) are undecided. Set membership tests keyed by blob refs that bypass no matcher call (dr.started: started-set of the describe traversal; resFromRule: membership filter) are listed as classified, not judged. " +
+			"NOT decided: the meaning of each leaf constraint and the base case of each leaf (e.g. that a PermanodeConstraint{Attr:camliNodeType, Value:T} with every other field unset only matches permanodes in the by-type set of T; that a predicate which does test a modal field draws the right conclusion from it); that a caller combines a sub-matcher's verdicts monotonically (the nmatch count in permanodeMatchesAttrVals) and that genMatcher's addCond bookkeeping retains every added condition; matcher semantics per constraint kind, that the enumerators really enumerate a superset in the claimed order, that a single collection holds each blob once, that a memoised verdict is still valid for the later occurrence of the key (the memo key captures everything the verdict depends on), memos kept in anything but a map local to one invocation (slices, sorted lists; a map held in a struct field or received as a parameter — e.g. the relation matcher's claim callback turned into a method — is reported undecided), the sort comparators and which slice is sorted, the Around window arithmetic, MapSort selection, any concrete world or query.",
 		RuleDocs: map[string]string{
 			"P-restrict":        "per planner predicate × Op label: contradiction rule over all acyclic paths — a may-restrict result derived from a recursive call needs Op==and, or Op==or with both operands restricting",
 			"P-leaf":            "per planner predicate × constraint struct its restricting leaf paths rely on × field of that struct the predicate does not test and the struct's matcher reads: the field is narrowing in the matcher (set side only rejects or rejoins with unchanged state; other uses guarded by its own set-test); modal ⇒ violation, unclassifiable ⇒ undecided; plus one row per struct (tested / unread fields), the all-must-match loop, and the add-only re-check of the At exception",
 			"P-nil-operand":     "per planner predicate: recursion on Logical.B only under Op in {and,or,xor} unless the predicate is nil-receiver tolerant",
 			"P-sorted":          "per candidate source (by src.name) of pickCandidateSource: sorted is constant per path; true only with the enumerator/sort pair that yields that order",
 			"P-source-superset": "per candidate source: restricted enumerator entered only under the restricting result of its justifying predicate on q.Constraint; matcher compiled from the same constraint",
-			"P-match":           "per append to res.Blobs in the enumeration callback: dominated by matcher()==(true,nil)",
-			"P-limit":           "per result-losing action in the enumeration callback: on the matcher-error path or under fact cands.sorted",
-			"P-postsort":        "per SortType constant: unsorted source ⇒ sort call (or error) on every path from enumeration to a non-nil result",
+			"P-match":           "per append to res.Blobs in the enumeration callback's effective body: dominated (facts of the helper and of the calls leading to it) by matcher()==(true,nil)",
+			"P-limit":           "per result-losing action in the enumeration callback's effective body (a return that may be false, also through a helper's result; shrinking res.Blobs): on the matcher-error path or under fact <planner result>.sorted",
+			"P-postsort":        "per SortType constant: unsorted source ⇒ sort call (or error) on every interprocedural path from the enumeration to a non-nil result",
 			"P-nodup":           "per corpus enumerator in the source table × callback invocation: loop depth <= 1, or guarded by a local seen-set look-up, or recorded exception",
 			"P-memo":            "per skip guard (map membership test that bypasses a matcher call on its key) in pkg/search × per assignment that can put a key into that memo: the assignment is dominated by the success edge of a matcher call on the same value, or every continuing path from it passes one (exits that provably end the enumeration excepted); other blob-ref sets are classified only",
 			"P-fresh":           "C06's K-inval reported for C08: the generation-stamped sorted-permanode caches behind the sources flagged sorted are invalidated by every live write of a location their order is computed from (generation increment on every such path through Corpus.addBlob), served only on the stamp==generation edge, and the generation only grows",
-			"P-truncate":        "per SortType constant except MapSort: unsorted source and 0<Limit<len ⇒ bounded re-slice of res.Blobs on every path to a non-nil result",
+			"P-truncate":        "per SortType constant except MapSort: unsorted source and 0<Limit<len ⇒ bounded re-slice of res.Blobs (in the executor or a helper it calls) on every interprocedural path to a non-nil result",
 		},
 		Run:       runC08,
 		DesignRef: "DESIGN.md §4 C08",
-		Technique: "static analysis: exhaustive acyclic-path enumeration over go/ssa with per-path phi resolution and branch facts (contradiction rule on the planner predicates, constant propagation and table agreement on the planner), for the leaf cases a relational (two-run) region argument on the matchers' CFGs: control dependence of the restricting return on field tests, set/unset divergence regions with harmless-exit, single-rejoin and state-equality checks, dominance-guarded uses, exhaustive evaluation of pure boolean helpers, field-based resolution of getter tables, dominance facts and assumption-pruned reachability in the executor; for skip-memos: key provenance through variable stores, success-edge dominance / must-pass-through of the matcher call, callback stop-protocol checked in the resolved enumerators",
+		Technique: "static analysis over effective bodies (caller plus statically called same-package helpers and literals, parameters/results/single-store state fields resolved across the call): exhaustive composite acyclic-path enumeration over go/ssa with per-path phi resolution and branch facts (contradiction rule on the planner predicates, constant propagation and table agreement on the planner), for the leaf cases a relational (two-run) region argument on the matchers' CFGs: control dependence of the restricting return on field tests, set/unset divergence regions with harmless-exit, single-rejoin and state-equality checks, dominance-guarded uses, exhaustive evaluation of pure boolean helpers, field-based resolution of getter tables, cross-call dominance facts and assumption-pruned interprocedural path exploration (helpers entered at their calls, left through their returns) in the executor; for skip-memos: key provenance through variable stores, success-edge dominance / must-pass-through of the matcher call, callback stop-protocol checked in the resolved enumerators",
 		LevelText: "Decides structural necessary conditions only: the planner predicates combine recursive results soundly for and/or/not/xor; a leaf case of a predicate ignores a field of the constraint only if that field can merely narrow what the matcher accepts (so the leaf is as sound for every constraint as it is for the one with all ignored fields unset); a source is flagged sorted only when its enumerator yields the requested order; every restricted source is guarded by the predicate that justifies it, on the same constraint the matcher is compiled from; results are appended only on a match; results are dropped early only for sorted sources; unsorted sources are post-sorted and truncated; the relation matcher's 'already checked' memo remembers a relative only after the matcher really ran on it; the cached orders the sorted sources enumerate are invalidated by every live write of their inputs. Does not decide matcher semantics, the base case of each leaf (all ignored fields unset), enumerator contents/order, comparators, or any concrete query.",
 	})
 }
@@ -236,6 +243,336 @@ func c08Cmp(op token.Token, l, r int64) (res, ok bool) {
 }
 
 // ---------------------------------------------------------------------------
+// composite paths: the acyclic paths of a function's EFFECTIVE BODY
+//
+// A c08XPath is one acyclic path through a root function together with, for
+// every call on it that enters a helper of the effective body (see
+// c08HelperOf), one acyclic path through that helper, recursively. Each helper
+// function occurs at most once per composite path (a helper that is called a
+// second time is left opaque, as any call was before), so every value belongs
+// to exactly one node and can be resolved: a phi by the edge its node's path
+// takes, a parameter of a helper by the argument of the entering call, the
+// result of a followed call by what the helper returns on its path. The rules
+// on the planner and its predicates read branches, calls and stores off these
+// paths, so moving a block into a helper, splitting a function or re-shaping
+// its control flow gives them the same facts.
+
+type c08XNode struct {
+	fn   *ssa.Function
+	main c08Path
+	idx  int // index of main among c08Paths(fn)
+	sub  map[*ssa.Call]*c08XNode
+	uses map[*ssa.Function]bool // fn and every function followed below
+}
+
+type c08XPath struct {
+	root  *c08XNode
+	byFn  map[*ssa.Function]*c08XNode
+	entry map[*ssa.Function]*ssa.Call
+}
+
+type c08Normer interface {
+	norm(v ssa.Value) ssa.Value
+}
+
+func c08PlainXPath(fn *ssa.Function, pth c08Path, idx int) *c08XPath {
+	n := &c08XNode{fn: fn, main: pth, idx: idx, uses: map[*ssa.Function]bool{fn: true}}
+	return &c08XPath{root: n, byFn: map[*ssa.Function]*c08XNode{fn: n}, entry: map[*ssa.Function]*ssa.Call{}}
+}
+
+type c08Expander struct {
+	follow func(c CallSite) *ssa.Function
+	max    int
+	plain  map[*ssa.Function][]c08Path
+	why    map[*ssa.Function]string
+}
+
+func (ex *c08Expander) paths(fn *ssa.Function) ([]c08Path, string) {
+	if ps, ok := ex.plain[fn]; ok {
+		return ps, ex.why[fn]
+	}
+	ps, why := c08Paths(fn, ex.max)
+	ex.plain[fn], ex.why[fn] = ps, why
+	return ps, why
+}
+
+func (ex *c08Expander) expand(fn *ssa.Function, active map[*ssa.Function]bool, depth int) ([]*c08XNode, string) {
+	paths, why := ex.paths(fn)
+	if why != "" {
+		return nil, why
+	}
+	var out []*c08XNode
+	for idx, pth := range paths {
+		cur := []*c08XNode{{fn: fn, main: pth, idx: idx, uses: map[*ssa.Function]bool{fn: true}}}
+		for _, b := range pth {
+			for _, in := range b.Instrs {
+				call, ok := in.(*ssa.Call)
+				if !ok || depth >= c08MaxDepth {
+					continue
+				}
+				callee := ex.follow(CallSite{fn, call})
+				if callee == nil || callee == fn || active[callee] {
+					continue
+				}
+				active[fn] = true
+				subs, swhy := ex.expand(callee, active, depth+1)
+				delete(active, fn)
+				if swhy != "" || len(subs) == 0 {
+					continue // not enumerable (loop, too many paths): the call stays opaque
+				}
+				var next []*c08XNode
+				for _, c := range cur {
+					clash := false
+					for f := range subs[0].uses {
+						if c.uses[f] {
+							clash = true
+						}
+					}
+					if clash {
+						next = append(next, c) // second occurrence of a helper on this path: opaque
+						continue
+					}
+					for _, s := range subs {
+						sclash := false
+						for f := range s.uses {
+							if c.uses[f] {
+								sclash = true
+							}
+						}
+						if sclash {
+							continue
+						}
+						n := &c08XNode{fn: c.fn, main: c.main, idx: c.idx, sub: map[*ssa.Call]*c08XNode{}, uses: map[*ssa.Function]bool{}}
+						for k, v := range c.sub {
+							n.sub[k] = v
+						}
+						for f := range c.uses {
+							n.uses[f] = true
+						}
+						n.sub[call] = s
+						for f := range s.uses {
+							n.uses[f] = true
+						}
+						next = append(next, n)
+					}
+				}
+				cur = next
+				if len(cur)+len(out) > ex.max {
+					return nil, fmt.Sprintf("more than %d composite paths", ex.max)
+				}
+			}
+		}
+		out = append(out, cur...)
+	}
+	return out, ""
+}
+
+// c08XPaths enumerates the composite paths of fn. follow decides which calls
+// enter the effective body.
+func c08XPaths(fn *ssa.Function, follow func(c CallSite) *ssa.Function, max int) ([]*c08XPath, []c08Path, string) {
+	ex := &c08Expander{follow: follow, max: max, plain: map[*ssa.Function][]c08Path{}, why: map[*ssa.Function]string{}}
+	nodes, why := ex.expand(fn, map[*ssa.Function]bool{}, 0)
+	if why != "" {
+		return nil, nil, why
+	}
+	var out []*c08XPath
+	for _, n := range nodes {
+		x := &c08XPath{root: n, byFn: map[*ssa.Function]*c08XNode{}, entry: map[*ssa.Function]*ssa.Call{}}
+		var reg func(n *c08XNode)
+		reg = func(n *c08XNode) {
+			x.byFn[n.fn] = n
+			for c, s := range n.sub {
+				x.entry[s.fn] = c
+				reg(s)
+			}
+		}
+		reg(n)
+		out = append(out, x)
+	}
+	plain, _ := ex.paths(fn)
+	return out, plain, ""
+}
+
+func c08RetOf(pth c08Path) *ssa.Return {
+	last := pth[len(pth)-1]
+	ret, _ := last.Instrs[len(last.Instrs)-1].(*ssa.Return)
+	return ret
+}
+
+// ret: the return instruction the root path ends in (nil: panic exit).
+func (x *c08XPath) ret() *ssa.Return { return c08RetOf(x.root.main) }
+
+// norm resolves v to its origin on this composite path.
+func (x *c08XPath) norm(v ssa.Value) ssa.Value {
+	for i := 0; i < 64 && v != nil; i++ {
+		o := originValue(v)
+		switch t := o.(type) {
+		case *ssa.Phi:
+			n := x.byFn[t.Parent()]
+			if n == nil {
+				return o
+			}
+			idx := n.main.index(t.Block())
+			if idx <= 0 {
+				return o
+			}
+			e := c08PredEdge(t, n.main[idx-1])
+			if e == nil {
+				return o
+			}
+			v = e
+			continue
+		case *ssa.Parameter:
+			call := x.entry[t.Parent()]
+			if call == nil {
+				return o
+			}
+			k := -1
+			for j, prm := range t.Parent().Params {
+				if prm == t {
+					k = j
+				}
+			}
+			if k < 0 || k >= len(call.Call.Args) {
+				return o
+			}
+			v = call.Call.Args[k]
+			continue
+		case *ssa.Call:
+			if rv := x.result(t, 0); rv != nil && t.Call.Signature().Results().Len() == 1 {
+				v = rv
+				continue
+			}
+		case *ssa.Extract:
+			if c, ok := t.Tuple.(*ssa.Call); ok {
+				if rv := x.result(c, t.Index); rv != nil {
+					v = rv
+					continue
+				}
+			}
+		}
+		return o
+	}
+	return v
+}
+
+// followed: the node of the helper path a call enters on this composite path.
+func (x *c08XPath) followed(c *ssa.Call) *c08XNode {
+	if c == nil || c.Parent() == nil {
+		return nil
+	}
+	n := x.byFn[c.Parent()]
+	if n == nil {
+		return nil
+	}
+	return n.sub[c]
+}
+
+func (x *c08XPath) result(c *ssa.Call, idx int) ssa.Value {
+	s := x.followed(c)
+	if s == nil {
+		return nil
+	}
+	ret := c08RetOf(s.main)
+	if ret == nil || idx >= len(ret.Results) {
+		return nil
+	}
+	return resolveReturnValue(ret.Results[idx], ret)
+}
+
+// c08Event: one step of a composite path in execution order: an instruction
+// that is not a followed call, or a branch taken.
+type c08Event struct {
+	in ssa.Instruction
+	br *c08Branch
+}
+
+func (x *c08XPath) events() []c08Event {
+	var out []c08Event
+	var walk func(n *c08XNode)
+	walk = func(n *c08XNode) {
+		for i, b := range n.main {
+			for _, in := range b.Instrs {
+				if c, ok := in.(*ssa.Call); ok && n.sub[c] != nil {
+					walk(n.sub[c])
+					continue
+				}
+				out = append(out, c08Event{in: in})
+			}
+			if i+1 >= len(n.main) || len(b.Instrs) == 0 || len(b.Succs) != 2 || b.Succs[0] == b.Succs[1] {
+				continue
+			}
+			ifi, ok := b.Instrs[len(b.Instrs)-1].(*ssa.If)
+			if !ok {
+				continue
+			}
+			val := b.Succs[0] == n.main[i+1]
+			cond := x.norm(ifi.Cond)
+			for {
+				u, ok := cond.(*ssa.UnOp)
+				if !ok || u.Op != token.NOT {
+					break
+				}
+				cond, val = x.norm(u.X), !val
+			}
+			out = append(out, c08Event{br: &c08Branch{c08FoldCond(x, cond), val, i}})
+		}
+	}
+	walk(x.root)
+	return out
+}
+
+// c08FoldCond: a comparison of two constants (a helper returned "" on its path
+// and the caller tests the result against "") becomes the boolean constant, so
+// that infeasible combinations of caller and helper paths are recognised.
+func c08FoldCond(n c08Normer, cond ssa.Value) ssa.Value {
+	bo, ok := cond.(*ssa.BinOp)
+	if !ok || (bo.Op != token.EQL && bo.Op != token.NEQ) {
+		return cond
+	}
+	a, ok1 := n.norm(bo.X).(*ssa.Const)
+	b, ok2 := n.norm(bo.Y).(*ssa.Const)
+	if !ok1 || !ok2 {
+		return cond
+	}
+	eq, ok := c08ConstEq(a, b)
+	if !ok {
+		return cond
+	}
+	return ssa.NewConst(constant.MakeBool(eq == (bo.Op == token.EQL)), types.Typ[types.Bool])
+}
+
+func (x *c08XPath) branches() []c08Branch {
+	var out []c08Branch
+	for _, ev := range x.events() {
+		if ev.br != nil {
+			out = append(out, *ev.br)
+		}
+	}
+	return out
+}
+
+func (x *c08XPath) String() string {
+	var render func(n *c08XNode) string
+	render = func(n *c08XNode) string {
+		s := n.main.String()
+		var subs []string
+		for _, b := range n.main {
+			for _, in := range b.Instrs {
+				if c, ok := in.(*ssa.Call); ok && n.sub[c] != nil {
+					subs = append(subs, n.sub[c].fn.Name()+"("+render(n.sub[c])+")")
+				}
+			}
+		}
+		if len(subs) > 0 {
+			s += " [" + strings.Join(subs, " ") + "]"
+		}
+		return s
+	}
+	return render(x.root)
+}
+
+// ---------------------------------------------------------------------------
 // restricting results of planner predicates
 
 const (
@@ -301,7 +638,7 @@ func c08LenFact(op token.Token, k int64, lenOnLeft, val bool) int {
 // c08RestrictFact interprets a branch as a statement about the result of a
 // predicate call: +1 the result is restricting (true / valid / non-empty),
 // -1 it is not. classify tells which calls are predicate calls and their kind.
-func c08RestrictFact(pth c08Path, br c08Branch, classify func(*ssa.Call) int) (*ssa.Call, int) {
+func c08RestrictFact(pth c08Normer, br c08Branch, classify func(*ssa.Call) int) (*ssa.Call, int) {
 	sign := func(b bool) int {
 		if b {
 			return 1
@@ -358,26 +695,37 @@ func c08RestrictFact(pth c08Path, br c08Branch, classify func(*ssa.Call) int) (*
 
 type c08PredAn struct {
 	p     *Program
+	w     *c08World
 	fn    *ssa.Function
 	kind  int
 	preds map[*ssa.Function]bool
 }
 
+// follow: the calls of a predicate that enter its effective body (helpers,
+// never another planner predicate or the predicate itself).
+func (a *c08PredAn) follow(c CallSite) *ssa.Function {
+	h := c08HelperOf(c)
+	if h == nil || a.preds[h] || h == a.fn {
+		return nil
+	}
+	return h
+}
+
 func (a *c08PredAn) recv() ssa.Value { return a.fn.Params[0] }
 
 // isLogical: v == c.Logical for the receiver c.
-func (a *c08PredAn) isLogical(pth c08Path, v ssa.Value) bool {
+func (a *c08PredAn) isLogical(pth *c08XPath, v ssa.Value) bool {
 	base, n, f, ok := c08FieldLoad(pth.norm(v))
 	return ok && f == "Logical" && c08IsType(n, c08Pkg, "Constraint") && pth.norm(base) == ssa.Value(a.recv())
 }
 
-func (a *c08PredAn) isOpLoad(pth c08Path, v ssa.Value) bool {
+func (a *c08PredAn) isOpLoad(pth *c08XPath, v ssa.Value) bool {
 	base, n, f, ok := c08FieldLoad(pth.norm(v))
 	return ok && f == "Op" && c08IsType(n, c08Pkg, "LogicalConstraint") && a.isLogical(pth, base)
 }
 
 // operand returns "A"/"B" when v == c.Logical.A / c.Logical.B.
-func (a *c08PredAn) operand(pth c08Path, v ssa.Value) string {
+func (a *c08PredAn) operand(pth *c08XPath, v ssa.Value) string {
 	base, n, f, ok := c08FieldLoad(pth.norm(v))
 	if ok && (f == "A" || f == "B") && c08IsType(n, c08Pkg, "LogicalConstraint") && a.isLogical(pth, base) {
 		return f
@@ -426,7 +774,7 @@ func (st *c08PredState) label() string {
 }
 
 // apply folds one branch into the state.
-func (a *c08PredAn) apply(pth c08Path, st *c08PredState, br c08Branch) {
+func (a *c08PredAn) apply(pth *c08XPath, st *c08PredState, br c08Branch) {
 	if cv, ok := c08ConstBool(br.Cond); ok {
 		if cv != br.Val {
 			st.dead = true
@@ -476,7 +824,7 @@ func (a *c08PredAn) apply(pth c08Path, st *c08PredState, br c08Branch) {
 }
 
 // operandStatus folds the facts about all recursive calls on one operand.
-func (a *c08PredAn) operandStatus(pth c08Path, st *c08PredState, operand string) int {
+func (a *c08PredAn) operandStatus(pth *c08XPath, st *c08PredState, operand string) int {
 	res := 0
 	for c, s := range st.rec {
 		if len(c.Call.Args) > 0 && a.operand(pth, c.Call.Args[0]) == operand && s != 0 {
@@ -492,7 +840,7 @@ type c08Deriv struct {
 	bad      string
 }
 
-func (a *c08PredAn) derive(pth c08Path, st *c08PredState, v ssa.Value, depth int) c08Deriv {
+func (a *c08PredAn) derive(pth *c08XPath, st *c08PredState, v ssa.Value, depth int) c08Deriv {
 	d := c08Deriv{from: map[string]bool{}}
 	v = pth.norm(v)
 	dependsOnRec := func(x ssa.Value) bool {
@@ -570,31 +918,40 @@ type c08Verdict struct {
 }
 
 // nilTolerant: every dereference of the receiver is in a block where c != nil is known.
+// (Dereferences in the helpers of the effective body count, under the facts of
+// the helper and of the calls that lead to it.)
 func (a *c08PredAn) nilTolerant() bool {
-	recv := a.recv()
-	for _, b := range a.fn.Blocks {
-		for _, in := range b.Instrs {
-			var x ssa.Value
-			switch t := in.(type) {
-			case *ssa.FieldAddr:
-				x = t.X
-			case *ssa.UnOp:
-				if t.Op == token.MUL {
+	recv := ssa.Value(a.recv())
+	isRecv := func(ps *c08Pos, f *c08Frame, v ssa.Value) bool {
+		o, _ := ps.resolve(f, v)
+		return o == recv
+	}
+	for _, fr := range a.w.root(a.fn).tree() {
+		ps := c08Static(fr)
+		for _, b := range fr.fn.Blocks {
+			for _, in := range b.Instrs {
+				var x ssa.Value
+				switch t := in.(type) {
+				case *ssa.FieldAddr:
 					x = t.X
+				case *ssa.UnOp:
+					if t.Op == token.MUL {
+						x = t.X
+					}
 				}
-			}
-			if x == nil || originValue(x) != ssa.Value(recv) {
-				continue
-			}
-			if k, isNil := NilFact(b, recv); !k || isNil {
-				return false
+				if x == nil || !isRecv(ps, fr, x) {
+					continue
+				}
+				if k, isNil := c08NilFactX(fr, b, isRecv); !k || isNil {
+					return false
+				}
 			}
 		}
 	}
 	return true
 }
 
-func c08RulePredicates(p *Program, r *Reporter, preds []*ssa.Function) (leaves []c08LeafPath) {
+func c08RulePredicates(p *Program, r *Reporter, w *c08World, preds []*ssa.Function) (leaves []c08LeafPath) {
 	predSet := map[*ssa.Function]bool{}
 	for _, f := range preds {
 		predSet[f] = true
@@ -603,7 +960,7 @@ func c08RulePredicates(p *Program, r *Reporter, preds []*ssa.Function) (leaves [
 	for _, fn := range preds {
 		key := FuncKey(fn)
 		site := p.Pos(fn.Pos())
-		a := &c08PredAn{p: p, fn: fn, kind: c08ResultKind(fn), preds: predSet}
+		a := &c08PredAn{p: p, w: w, fn: fn, kind: c08ResultKind(fn), preds: predSet}
 		if a.kind == 0 {
 			r.Undecided("P-restrict", key+"#result-type", site, "planner predicate with a result type the rule has no notion of 'restricting' for: "+fn.Signature.Results().String())
 			continue
@@ -618,12 +975,12 @@ func c08RulePredicates(p *Program, r *Reporter, preds []*ssa.Function) (leaves [
 			r.Undecided("P-restrict", key+"#closures", site, "planner predicate contains function literals; not modelled")
 			continue
 		}
-		paths, why := c08Paths(fn, 4000)
+		xpaths, paths, why := c08XPaths(fn, a.follow, 4000)
 		if why != "" {
 			r.Undecided("P-restrict", key+"#paths", site, "cannot enumerate the paths of the predicate: "+why)
 			continue
 		}
-		r.Analysed("predicate_paths", len(paths))
+		r.Analysed("predicate_paths", len(xpaths))
 		tolerant := a.nilTolerant()
 		type agg struct {
 			ok, bad, und int
@@ -639,40 +996,36 @@ func c08RulePredicates(p *Program, r *Reporter, preds []*ssa.Function) (leaves [
 		}
 		leaf := 0
 		nilAgg := map[string]*agg{}
-		for pi, pth := range paths {
-			last := pth[len(pth)-1]
-			ret, isRet := last.Instrs[len(last.Instrs)-1].(*ssa.Return)
-			brs := pth.branches()
+		for _, pth := range xpaths {
+			ret := pth.ret()
+			isRet := ret != nil
 			st := &c08PredState{opNot: map[string]bool{}, rec: map[*ssa.Call]int{}}
-			bi := 0
-			for i, b := range pth {
-				// P-nil-operand: recursive calls on B in this block, with the facts established before it
-				for _, in := range b.Instrs {
-					c, ok := in.(*ssa.Call)
-					if !ok || !a.isRec(c) || st.dead || len(c.Call.Args) == 0 {
-						continue
-					}
-					if a.operand(pth, c.Call.Args[0]) != "B" {
-						continue
-					}
-					g := nilAgg["B"]
-					if g == nil {
-						g = &agg{site: c.Pos()}
-						nilAgg["B"] = g
-					}
-					switch {
-					case tolerant:
-						g.ok++
-					case st.opIs == "and" || st.opIs == "or" || st.opIs == "xor":
-						g.ok++
-					default:
-						g.bad++
-						g.details = append(g.details, fmt.Sprintf("path %s: recursive call on c.Logical.B under Op label %q, but B is nil for Op==\"not\" and %s dereferences its receiver without a nil check", pth, st.label(), fn.Name()))
-					}
+			for _, ev := range pth.events() {
+				if ev.br != nil {
+					a.apply(pth, st, *ev.br)
+					continue
 				}
-				for bi < len(brs) && brs[bi].At == i {
-					a.apply(pth, st, brs[bi])
-					bi++
+				// P-nil-operand: a recursive call on B, with the facts established before it
+				c, ok := ev.in.(*ssa.Call)
+				if !ok || !a.isRec(c) || st.dead || len(c.Call.Args) == 0 {
+					continue
+				}
+				if a.operand(pth, c.Call.Args[0]) != "B" {
+					continue
+				}
+				g := nilAgg["B"]
+				if g == nil {
+					g = &agg{site: c.Pos()}
+					nilAgg["B"] = g
+				}
+				switch {
+				case tolerant:
+					g.ok++
+				case st.opIs == "and" || st.opIs == "or" || st.opIs == "xor":
+					g.ok++
+				default:
+					g.bad++
+					g.details = append(g.details, fmt.Sprintf("path %s: recursive call on c.Logical.B under Op label %q, but B is nil for Op==\"not\" and %s dereferences its receiver without a nil check", pth, st.label(), fn.Name()))
 				}
 			}
 			if st.dead || !isRet || len(ret.Results) != 1 {
@@ -708,7 +1061,7 @@ func c08RulePredicates(p *Program, r *Reporter, preds []*ssa.Function) (leaves [
 			}
 			if len(just) == 0 {
 				leaf++
-				leaves = append(leaves, c08LeafPath{fn: fn, kind: a.kind, paths: paths, idx: pi, ret: ret})
+				leaves = append(leaves, c08LeafPath{fn: fn, kind: a.kind, paths: paths, idx: pth.root.idx, ret: ret, xp: pth})
 				continue
 			}
 			g := get(st.label())
@@ -827,13 +1180,15 @@ var c08SourceTable = map[string]c08Source{
 
 type c08Planner struct {
 	p     *Program
+	w     *c08World
+	roles map[*ssa.Function]string // planner predicate -> the canonical name of its role
 	fn    *ssa.Function
 	preds map[*ssa.Function]bool
 	sorts map[int64]string // SortType constant value -> name
 }
 
 // isConstraintOfQ: v == q.Constraint for the receiver q.
-func (pl *c08Planner) isConstraintOfQ(pth c08Path, v ssa.Value) bool {
+func (pl *c08Planner) isConstraintOfQ(pth *c08XPath, v ssa.Value) bool {
 	base, n, f, ok := c08FieldLoad(pth.norm(v))
 	return ok && f == "Constraint" && c08IsType(n, c08Pkg, "SearchQuery") && pth.norm(base) == ssa.Value(pl.fn.Params[0])
 }
@@ -852,12 +1207,13 @@ type c08PlanFacts struct {
 	anyCamli  bool // c.AnyCamliType known true
 	typeSet   bool // c.CamliType != "" known
 	dead      bool
+	roles     map[*ssa.Function]string
 	constrOK  map[*ssa.Call]bool // predicate call has q.Constraint as receiver
 	sortNames []string
 }
 
-func (pl *c08Planner) facts(pth c08Path) *c08PlanFacts {
-	pf := &c08PlanFacts{pred: map[*ssa.Call]int{}, constrOK: map[*ssa.Call]bool{}}
+func (pl *c08Planner) facts(pth *c08XPath) *c08PlanFacts {
+	pf := &c08PlanFacts{pred: map[*ssa.Call]int{}, constrOK: map[*ssa.Call]bool{}, roles: pl.roles}
 	for _, br := range pth.branches() {
 		if cv, ok := c08ConstBool(br.Cond); ok {
 			if cv != br.Val {
@@ -919,7 +1275,7 @@ func (pl *c08Planner) facts(pth c08Path) *c08PlanFacts {
 // q.Constraint on this path, and returns the call.
 func (pf *c08PlanFacts) has(name string) *ssa.Call {
 	for c, s := range pf.pred {
-		if s == 1 && pf.constrOK[c] && c.Call.StaticCallee().Name() == name {
+		if s == 1 && pf.constrOK[c] && pf.roles[c.Call.StaticCallee()] == name {
 			return c
 		}
 	}
@@ -927,22 +1283,132 @@ func (pf *c08PlanFacts) has(name string) *ssa.Call {
 }
 
 type c08Plan struct {
-	pth       c08Path
+	pth       *c08XPath
 	ret       *ssa.Return
 	name      string
 	sorted    bool
 	sortedSet string // how sorted was determined
 	send      *ssa.Function
 	enum      CallSite
+	enumFr    *c08Frame
 	bad       string
 }
 
+// structFields reconstructs, field by field, the struct value v holds at the
+// end of the composite path: the value of a local variable (field stores and
+// whole-struct assignments on the path, last one wins, also through a pointer
+// handed to a followed helper), a composite literal, or the result of a
+// followed helper (resolved by norm).
+func (pl *c08Planner) structFields(pth *c08XPath, evs []c08Event, v ssa.Value, depth int) (fields map[string]ssa.Value, bad string) {
+	fields = map[string]ssa.Value{}
+	v = pth.norm(v)
+	if c, ok := v.(*ssa.Const); ok && c.Value == nil {
+		return fields, "" // zero value
+	}
+	ld, ok := v.(*ssa.UnOp)
+	var cell *ssa.Alloc
+	if ok && ld.Op == token.MUL {
+		cell, _ = pth.norm(ld.X).(*ssa.Alloc)
+	}
+	if cell == nil || depth > 4 {
+		return nil, "the returned candidateSource is not read from a local variable or composite literal; cannot propagate its fields"
+	}
+	isCell := func(a ssa.Value) bool { return pth.norm(a) == ssa.Value(cell) }
+	for _, ev := range evs {
+		st, ok := ev.in.(*ssa.Store)
+		if !ok {
+			continue
+		}
+		if isCell(st.Addr) {
+			if sl, ok := pth.norm(st.Val).(*ssa.UnOp); ok && sl.Op == token.MUL && isCell(sl.X) {
+				continue // `return src, ok` with a named result: the variable assigned to itself
+			}
+			sub, sbad := pl.structFields(pth, evs, st.Val, depth+1)
+			if sbad != "" {
+				return nil, "whole-struct assignment to the returned candidateSource from a value that cannot be followed"
+			}
+			fields = sub
+			continue
+		}
+		fa, ok := st.Addr.(*ssa.FieldAddr)
+		if !ok || !isCell(fa.X) {
+			continue
+		}
+		if _, _, f, ok := c08FieldAddr(fa); ok {
+			fields[f] = st.Val
+		}
+	}
+	// the variable's address must not escape (field stores are the only writers)
+	if refs := cell.Referrers(); refs != nil {
+		for _, rf := range *refs {
+			switch x := rf.(type) {
+			case *ssa.FieldAddr, *ssa.UnOp, *ssa.DebugRef:
+			case *ssa.Store:
+				if x.Addr != ssa.Value(cell) {
+					return nil, "the address of the returned candidateSource variable is stored"
+				}
+			case *ssa.Call:
+				if pth.followed(x) == nil {
+					return nil, "the returned candidateSource variable escapes (" + rf.String() + ")"
+				}
+			default:
+				return nil, "the returned candidateSource variable escapes (" + rf.String() + ")"
+			}
+		}
+	}
+	return fields, ""
+}
+
+// enumerator finds, in the effective body of a send function, the one call
+// that receives send's callback parameter: frames follow the helpers (and
+// bound methods) the callback is passed through.
+func (pl *c08Planner) enumerator(send *ssa.Function, recv ssa.Value) (enum CallSite, fr *c08Frame, bad string) {
+	root := pl.w.root(send)
+	var enums []CallSite
+	var frs []*c08Frame
+	var scan func(f *c08Frame, depth int)
+	scan = func(f *c08Frame, depth int) {
+		var cbs []*ssa.Parameter
+		for _, prm := range f.fn.Params {
+			if _, ok := prm.Type().Underlying().(*types.Signature); ok {
+				cbs = append(cbs, prm)
+			}
+		}
+		for _, c := range CallsIn(f.fn, true) {
+			hit := false
+			for _, arg := range c.Args() {
+				o := originValue(arg)
+				for _, cb := range cbs {
+					if o == ssa.Value(cb) {
+						hit = true
+					}
+				}
+			}
+			if !hit {
+				continue
+			}
+			if h := c08HelperOf(c); h != nil && c.Fn == f.fn && c.Value() != nil && depth < c08MaxDepth {
+				if k := f.enter(c.Instr, h); k != nil {
+					scan(k, depth+1)
+					continue
+				}
+			}
+			enums = append(enums, c)
+			frs = append(frs, f)
+		}
+	}
+	scan(root, 0)
+	if len(enums) != 1 {
+		return CallSite{}, nil, fmt.Sprintf("send passes its callback to %d calls; expected exactly one enumerator", len(enums))
+	}
+	return enums[0], frs[0], ""
+}
+
 // plan reconstructs the candidateSource returned at the end of the path.
-func (pl *c08Planner) plan(pth c08Path) *c08Plan {
+func (pl *c08Planner) plan(pth *c08XPath) *c08Plan {
 	out := &c08Plan{pth: pth}
-	last := pth[len(pth)-1]
-	ret, ok := last.Instrs[len(last.Instrs)-1].(*ssa.Return)
-	if !ok {
+	ret := pth.ret()
+	if ret == nil {
 		return nil // panic exit
 	}
 	out.ret = ret
@@ -950,55 +1416,12 @@ func (pl *c08Planner) plan(pth c08Path) *c08Plan {
 		out.bad = "unexpected number of results"
 		return out
 	}
-	ld, ok := ret.Results[0].(*ssa.UnOp)
-	var cell *ssa.Alloc
-	if ok && ld.Op == token.MUL {
-		cell, _ = ld.X.(*ssa.Alloc)
-	}
-	if cell == nil {
-		out.bad = "the returned candidateSource is not read from a local variable; cannot propagate its fields"
+	fields, bad := pl.structFields(pth, pth.events(), resolveReturnValue(ret.Results[0], ret), 0)
+	if bad != "" {
+		out.bad = bad
 		return out
 	}
-	var nameV, sortedV, sendV ssa.Value
-	for _, b := range pth {
-		for _, in := range b.Instrs {
-			st, ok := in.(*ssa.Store)
-			if !ok {
-				continue
-			}
-			if st.Addr == ssa.Value(cell) {
-				out.bad = "whole-struct assignment to the returned candidateSource; not modelled"
-				return out
-			}
-			fa, ok := st.Addr.(*ssa.FieldAddr)
-			if !ok || fa.X != ssa.Value(cell) {
-				continue
-			}
-			_, _, f, ok := c08FieldAddr(fa)
-			if !ok {
-				continue
-			}
-			switch f {
-			case "name":
-				nameV = st.Val
-			case "sorted":
-				sortedV = st.Val
-			case "send":
-				sendV = st.Val
-			}
-		}
-	}
-	// the variable's address must not escape (field stores are the only writers)
-	if refs := cell.Referrers(); refs != nil {
-		for _, rf := range *refs {
-			switch rf.(type) {
-			case *ssa.FieldAddr, *ssa.UnOp, *ssa.DebugRef:
-			default:
-				out.bad = "the returned candidateSource variable escapes (" + rf.String() + ")"
-				return out
-			}
-		}
-	}
+	nameV, sortedV, sendV := fields[c08Src.name], fields[c08Src.sorted], fields[c08Src.send]
 	if nameV != nil {
 		out.name, _ = ConstString(pth.norm(nameV))
 	}
@@ -1027,33 +1450,47 @@ func (pl *c08Planner) plan(pth c08Path) *c08Plan {
 		out.bad = "src.send is not a function literal or declared function"
 		return out
 	}
-	// the enumerator: the call inside send that receives send's callback parameter
-	var cbs []*ssa.Parameter
-	for _, prm := range out.send.Params {
-		if _, ok := prm.Type().Underlying().(*types.Signature); ok {
-			cbs = append(cbs, prm)
-		}
-	}
-	var enums []CallSite
-	for _, c := range CallsIn(out.send, true) {
-		for _, arg := range c.Args() {
-			o := originValue(arg)
-			for _, cb := range cbs {
-				if o == ssa.Value(cb) {
-					enums = append(enums, c)
-				}
-			}
-		}
-	}
-	if len(enums) != 1 {
-		out.bad = fmt.Sprintf("send passes its callback to %d calls; expected exactly one enumerator", len(enums))
+	if len(out.send.Blocks) == 0 {
+		out.bad = "src.send has no body"
 		return out
 	}
-	out.enum = enums[0]
+	// the enumerator: the call in send's effective body that receives send's callback parameter
+	out.enum, out.enumFr, out.bad = pl.enumerator(out.send, nil)
 	return out
 }
 
-func c08RulePlanner(p *Program, r *Reporter, pick *ssa.Function, preds map[*ssa.Function]bool, sorts map[int64]string) {
+// boolArg: the value of a boolean argument of the enumerator call on this
+// path: a constant, or a condition the path has branched on (a guard hoisted
+// into a local and handed on: newestFirst := q.Sort == CreatedDesc).
+func (pn *c08Plan) boolArg(v ssa.Value) (val, ok bool) {
+	o := pn.arg(v)
+	neg := false
+	for {
+		u, isU := o.(*ssa.UnOp)
+		if !isU || u.Op != token.NOT {
+			break
+		}
+		o, neg = pn.pth.norm(u.X), !neg
+	}
+	if bv, isC := c08ConstBool(o); isC {
+		return bv != neg, true
+	}
+	for _, br := range pn.pth.branches() {
+		if br.Cond == o {
+			return br.Val != neg, true
+		}
+	}
+	return false, false
+}
+
+// arg resolves an argument of the enumerator call to the planner's value it
+// stands for on this path.
+func (pn *c08Plan) arg(v ssa.Value) ssa.Value {
+	o, _ := c08Static(pn.enumFr).resolve(pn.enumFr, v)
+	return pn.pth.norm(o)
+}
+
+func c08RulePlanner(p *Program, r *Reporter, w *c08World, pick *ssa.Function, preds map[*ssa.Function]bool, roles map[*ssa.Function]string, sorts map[int64]string) {
 	key := FuncKey(pick)
 	for k := range c08SourceTable {
 		if !strings.HasPrefix(k, "iface:") {
@@ -1061,13 +1498,19 @@ func c08RulePlanner(p *Program, r *Reporter, pick *ssa.Function, preds map[*ssa.
 			p.Func("pkg/index", "Corpus", k[i+1:])
 		}
 	}
-	paths, why := c08Paths(pick, 4000)
+	paths, _, why := c08XPaths(pick, func(c CallSite) *ssa.Function {
+		h := c08HelperOf(c)
+		if h == nil || preds[h] || h == pick {
+			return nil
+		}
+		return h
+	}, 4000)
 	if why != "" {
 		r.Undecided("P-sorted", key+"#paths", p.Pos(pick.Pos()), "cannot enumerate the planner's paths: "+why)
 		return
 	}
 	r.Analysed("planner_paths", len(paths))
-	pl := &c08Planner{p: p, fn: pick, preds: preds, sorts: sorts}
+	pl := &c08Planner{p: p, w: w, roles: roles, fn: pick, preds: preds, sorts: sorts}
 	type res struct {
 		st     Status
 		detail string
@@ -1124,7 +1567,7 @@ func c08RulePlanner(p *Program, r *Reporter, pick *ssa.Function, preds map[*ssa.
 				want = "LastModifiedDesc"
 			case "pkg/index.(*Corpus).EnumeratePermanodesCreated":
 				if len(args) == 3 {
-					if nf, ok := c08ConstBool(originValue(args[2])); ok {
+					if nf, ok := pn.boolArg(args[2]); ok {
 						want = "CreatedAsc"
 						if nf {
 							want = "CreatedDesc"
@@ -1161,7 +1604,7 @@ func c08RulePlanner(p *Program, r *Reporter, pick *ssa.Function, preds map[*ssa.
 				bad("by-node-type enumerator entered without onlyMatchesPermanode()==true for q.Constraint")
 			case c == nil:
 				bad("by-node-type enumerator entered without a non-empty matchesPermanodeTypes() result for q.Constraint")
-			case len(args) != 3 || originValue(args[2]) != ssa.Value(c):
+			case len(args) != 3 || pn.arg(args[2]) != ssa.Value(c):
 				bad("the type list passed to the enumerator is not the slice returned by the matchesPermanodeTypes() call that was tested non-empty")
 			default:
 				good("by-node-type enumerator under onlyMatchesPermanode() with the non-empty matchesPermanodeTypes() result")
@@ -1171,7 +1614,7 @@ func c08RulePlanner(p *Program, r *Reporter, pick *ssa.Function, preds map[*ssa.
 			switch {
 			case c == nil:
 				bad("single-blob enumerator entered without a valid matchesAtMostOneBlob() result for q.Constraint")
-			case len(args) != 3 || originValue(args[2]) != ssa.Value(c):
+			case len(args) != 3 || pn.arg(args[2]) != ssa.Value(c):
 				bad("the ref passed to the enumerator is not the one returned by the matchesAtMostOneBlob() call that was tested valid")
 			default:
 				good("single-blob enumerator with the valid matchesAtMostOneBlob() result")
@@ -1181,7 +1624,7 @@ func c08RulePlanner(p *Program, r *Reporter, pick *ssa.Function, preds map[*ssa.
 				merge(superRes, k, Undecided, site, false, "unexpected arity of EnumerateCamliBlobs")
 				break
 			}
-			tv := originValue(args[1])
+			tv := pn.arg(args[1])
 			if s, ok := ConstString(tv); ok {
 				switch {
 				case s == "file" && need("matchesFileByWholeRef") != nil:
@@ -1285,21 +1728,23 @@ func c08LoopDepth(b *ssa.BasicBlock) int {
 
 type c08CbSite struct {
 	in    ssa.CallInstruction
-	fn    *ssa.Function
+	fr    *c08Frame
 	depth int
 	via   string
 }
 
-// c08CallbackSites finds where fn's parameter prm is invoked, following one
-// level of static pass-through helpers.
-func c08CallbackSites(fn *ssa.Function, prm *ssa.Parameter, outer int, via string, level int) (sites []c08CbSite, bad string) {
+// c08CallbackSites finds where the callback parameter prm of fr.fn is invoked,
+// following the static helpers it is passed on to (frames, so that what a
+// helper receives can be resolved to what the enumerator made).
+func c08CallbackSites(fr *c08Frame, prm *ssa.Parameter, outer int, via string) (sites []c08CbSite, bad string) {
+	fn := fr.fn
 	for _, c := range CallsIn(fn, true) {
 		cc := c.Common()
 		if !cc.IsInvoke() && originValue(cc.Value) == ssa.Value(prm) {
 			if c.Fn != fn {
 				return nil, "callback invoked from a function literal inside " + FuncKey(fn)
 			}
-			sites = append(sites, c08CbSite{c.Instr, fn, outer + c08LoopDepth(c.Block()), via})
+			sites = append(sites, c08CbSite{c.Instr, fr, outer + c08LoopDepth(c.Block()), via})
 			continue
 		}
 		for i, a := range c.Args() {
@@ -1307,10 +1752,14 @@ func c08CallbackSites(fn *ssa.Function, prm *ssa.Parameter, outer int, via strin
 				continue
 			}
 			callee := c.Callee()
-			if callee == nil || callee.Blocks == nil || c.Fn != fn || level >= 2 || i >= len(callee.Params) {
+			if callee == nil || callee.Blocks == nil || c.Fn != fn || i >= len(callee.Params) || c.Value() == nil {
 				return nil, "callback passed on to " + c.CalleeKey() + ", which the rule cannot follow"
 			}
-			sub, b := c08CallbackSites(callee, callee.Params[i], outer+c08LoopDepth(c.Block()), via+" -> "+FuncKey(callee), level+1)
+			kid := fr.enter(c.Instr, callee)
+			if kid == nil {
+				return nil, "callback passed on to " + c.CalleeKey() + " beyond the depth the rule follows"
+			}
+			sub, b := c08CallbackSites(kid, callee.Params[i], outer+c08LoopDepth(c.Block()), via+" -> "+FuncKey(callee))
 			if b != "" {
 				return nil, b
 			}
@@ -1320,14 +1769,21 @@ func c08CallbackSites(fn *ssa.Function, prm *ssa.Parameter, outer int, via strin
 	return sites, ""
 }
 
+// c08SeenGuarded: the invocation is under a branch on a look-up in a map made
+// in the enumerator's effective body (the branch may sit in the helper that
+// invokes the callback or at a call that leads to it; the map may have come in
+// as a parameter).
 func c08SeenGuarded(s c08CbSite) bool {
-	for _, f := range FactsAt(s.in.Block()) {
-		if DependsOn(f.Cond, func(v ssa.Value) bool {
+	for _, x := range c08FactsX(s.fr, s.in.Block()) {
+		ps := c08Static(x.fr)
+		xf := x.fr
+		if DependsOn(x.cond, func(v ssa.Value) bool {
 			lk, ok := v.(*ssa.Lookup)
 			if !ok {
 				return false
 			}
-			_, isMake := originValue(lk.X).(*ssa.MakeMap)
+			o, _ := ps.resolve(xf, lk.X)
+			_, isMake := o.(*ssa.MakeMap)
 			return isMake
 		}) {
 			return true
@@ -1336,7 +1792,7 @@ func c08SeenGuarded(s c08CbSite) bool {
 	return false
 }
 
-func c08RuleNoDup(p *Program, r *Reporter) {
+func c08RuleNoDup(p *Program, r *Reporter, w *c08World) {
 	var keys []string
 	for k := range c08SourceTable {
 		if !strings.HasPrefix(k, "iface:") {
@@ -1357,7 +1813,7 @@ func c08RuleNoDup(p *Program, r *Reporter) {
 			r.Undecided("P-nodup", k+"#callback", site, "enumerator has no callback parameter")
 			continue
 		}
-		sites, bad := c08CallbackSites(fn, cb, 0, FuncKey(fn), 0)
+		sites, bad := c08CallbackSites(w.root(fn), cb, 0, FuncKey(fn))
 		if bad != "" {
 			r.Undecided("P-nodup", k+"#callback", site, bad)
 			continue
@@ -1385,25 +1841,937 @@ func c08RuleNoDup(p *Program, r *Reporter) {
 }
 
 // ---------------------------------------------------------------------------
+// effective bodies: frames, cross-frame value resolution, path exploration
+//
+// A rule that looks for a site "in function F" looks in F's EFFECTIVE BODY: F
+// plus, transitively (c08MaxDepth), the unexported same-package functions and
+// methods and the function literals that F calls statically. A c08Frame is one
+// activation of such a function: it knows the call that entered it and maps
+// parameters to the caller's arguments, so a value of a helper can be
+// resolved to the value of the caller it stands for (and a result of a helper
+// call to the value the helper returns). Extracting a block into a helper,
+// splitting a function or turning a closure into a method therefore does not
+// change what the rules see.
+
+const c08MaxDepth = 5
+
+type c08FieldKey struct {
+	named *types.Named
+	idx   int
+}
+
+type c08FieldInfo struct {
+	stores  []*ssa.Store
+	loads   []*ssa.UnOp
+	addrs   []*ssa.FieldAddr
+	escapes bool // the field's address is used for more than loads and stores
+}
+
+type c08World struct {
+	p      *Program
+	fields map[c08FieldKey]*c08FieldInfo
+	bound  map[*ssa.Function][]*ssa.MakeClosure // method -> the closures that bind a receiver to it
+	state  map[*types.Named]*c08StateInfo
+}
+
+func c08FieldKeyOf(fa *ssa.FieldAddr) (c08FieldKey, bool) {
+	pt, ok := fa.X.Type().Underlying().(*types.Pointer)
+	if !ok {
+		return c08FieldKey{}, false
+	}
+	n, _ := pt.Elem().(*types.Named)
+	if n == nil || n.Obj().Pkg() == nil || !strings.HasPrefix(n.Obj().Pkg().Path(), modPrefix) {
+		return c08FieldKey{}, false
+	}
+	return c08FieldKey{n.Origin(), fa.Field}, true
+}
+
+// fieldInfo: every store to the struct field fa addresses, anywhere in the
+// module (field-based: all instances of the struct type together).
+func (w *c08World) fieldInfo(fa *ssa.FieldAddr) *c08FieldInfo {
+	if w.fields == nil {
+		w.fields = map[c08FieldKey]*c08FieldInfo{}
+		seen := map[*ssa.Function]bool{}
+		var scan func(fn *ssa.Function)
+		scan = func(fn *ssa.Function) {
+			if fn == nil || seen[fn] {
+				return
+			}
+			seen[fn] = true
+			for _, b := range fn.Blocks {
+				for _, in := range b.Instrs {
+					x, ok := in.(*ssa.FieldAddr)
+					if !ok {
+						continue
+					}
+					k, ok := c08FieldKeyOf(x)
+					if !ok {
+						continue
+					}
+					fi := w.fields[k]
+					if fi == nil {
+						fi = &c08FieldInfo{}
+						w.fields[k] = fi
+					}
+					fi.addrs = append(fi.addrs, x)
+					if refs := x.Referrers(); refs != nil {
+						for _, rf := range *refs {
+							switch r := rf.(type) {
+							case *ssa.Store:
+								if r.Addr == ssa.Value(x) {
+									fi.stores = append(fi.stores, r)
+								} else {
+									fi.escapes = true
+								}
+							case *ssa.UnOp:
+								if r.Op != token.MUL {
+									fi.escapes = true
+								} else {
+									fi.loads = append(fi.loads, r)
+								}
+							case *ssa.DebugRef:
+							default:
+								fi.escapes = true
+							}
+						}
+					}
+				}
+			}
+			for _, a := range fn.AnonFuncs {
+				scan(a)
+			}
+		}
+		for _, fn := range w.p.AllFuncs {
+			scan(fn)
+		}
+	}
+	k, ok := c08FieldKeyOf(fa)
+	if !ok {
+		return nil
+	}
+	return w.fields[k]
+}
+
+// singleFieldStore: the one value ever stored into the field a load reads
+// (a struct that carries the state of a former closure: `st := &enumState{res:
+// res, ...}`), or nil.
+func (w *c08World) singleFieldStore(ld *ssa.UnOp) ssa.Value {
+	fa, ok := ld.X.(*ssa.FieldAddr)
+	if !ok || ld.Op != token.MUL {
+		return nil
+	}
+	fi := w.fieldInfo(fa)
+	if fi == nil || fi.escapes || len(fi.stores) != 1 {
+		return nil
+	}
+	return fi.stores[0].Val
+}
+
+// c08StateInfo: named struct type T (of the module) is the STATE of one
+// invocation of function creator — what a closure turned into a method keeps
+// in its receiver: every access to a field of T goes through the receiver of a
+// method of T or through the one local allocation in creator; the methods are
+// only ever used as bound-method values made in creator on that allocation;
+// the allocation goes nowhere else. A map or variable held in such a field is
+// as local to one invocation of creator as a captured local variable was.
+type c08StateInfo struct {
+	ok      bool
+	why     string
+	creator *ssa.Function
+	alloc   *ssa.Alloc
+	methods map[*ssa.Function]bool
+}
+
+func (w *c08World) boundClosures() map[*ssa.Function][]*ssa.MakeClosure {
+	if w.bound != nil {
+		return w.bound
+	}
+	w.bound = map[*ssa.Function][]*ssa.MakeClosure{}
+	seen := map[*ssa.Function]bool{}
+	var scan func(fn *ssa.Function)
+	scan = func(fn *ssa.Function) {
+		if fn == nil || seen[fn] {
+			return
+		}
+		seen[fn] = true
+		for _, b := range fn.Blocks {
+			for _, in := range b.Instrs {
+				if mc, ok := in.(*ssa.MakeClosure); ok {
+					if t := c08BoundTarget(mc.Fn.(*ssa.Function)); t != nil {
+						w.bound[t] = append(w.bound[t], mc)
+					}
+				}
+			}
+		}
+		for _, a := range fn.AnonFuncs {
+			scan(a)
+		}
+	}
+	for _, fn := range w.p.AllFuncs {
+		scan(fn)
+	}
+	return w.bound
+}
+
+// stateOf decides whether the struct type of the field fa addresses is the
+// state of one invocation (see c08StateInfo).
+func (w *c08World) stateOf(fa *ssa.FieldAddr) *c08StateInfo {
+	k, ok := c08FieldKeyOf(fa)
+	if !ok {
+		return &c08StateInfo{why: "not a field of a module struct"}
+	}
+	if w.state == nil {
+		w.state = map[*types.Named]*c08StateInfo{}
+	}
+	if si := w.state[k.named]; si != nil {
+		return si
+	}
+	si := &c08StateInfo{methods: map[*ssa.Function]bool{}}
+	w.state[k.named] = si
+	w.fieldInfo(fa) // builds the index
+	st := c08Struct(k.named)
+	if st == nil {
+		si.why = "not a struct"
+		return si
+	}
+	fail := func(why string) *c08StateInfo {
+		si.why = why
+		return si
+	}
+	for i := 0; i < st.NumFields(); i++ {
+		fi := w.fields[c08FieldKey{k.named, i}]
+		if fi == nil {
+			continue
+		}
+		if fi.escapes {
+			return fail("the address of field " + st.Field(i).Name() + " is taken")
+		}
+		for _, a := range fi.addrs {
+			switch b := originValue(a.X).(type) {
+			case *ssa.Parameter:
+				fn := b.Parent()
+				if fn.Signature.Recv() == nil || len(fn.Params) == 0 || fn.Params[0] != b {
+					return fail("field accessed through a parameter that is not a method receiver, in " + FuncKey(fn))
+				}
+				si.methods[fn] = true
+			case *ssa.Alloc:
+				if si.alloc != nil && si.alloc != b {
+					return fail("the struct is allocated in more than one place")
+				}
+				si.alloc = b
+			default:
+				return fail("field accessed through a value the rule cannot trace, in " + FuncKey(a.Parent()))
+			}
+		}
+	}
+	if si.alloc == nil {
+		return fail("no local allocation of the struct found")
+	}
+	si.creator = si.alloc.Parent()
+	// the allocation: only field accesses, bound-method closures, and a local variable holding it
+	var checkRefs func(v ssa.Value, depth int) string
+	checkRefs = func(v ssa.Value, depth int) string {
+		refs := v.Referrers()
+		if refs == nil {
+			return ""
+		}
+		for _, rf := range *refs {
+			switch x := rf.(type) {
+			case *ssa.FieldAddr, *ssa.DebugRef:
+			case *ssa.MakeClosure:
+				if t := c08BoundTarget(x.Fn.(*ssa.Function)); t == nil || !si.methods[t] && NamedOf(t.Signature.Recv().Type()) != k.named {
+					return "the state struct is captured by " + x.Fn.Name()
+				}
+			case *ssa.Store:
+				cell, isAl := x.Addr.(*ssa.Alloc)
+				if x.Val != v || !isAl || depth > 2 {
+					return "the state struct is stored somewhere"
+				}
+				// a local variable holding the pointer: its loads are checked like the pointer
+				if crefs := cell.Referrers(); crefs != nil {
+					for _, cr := range *crefs {
+						switch y := cr.(type) {
+						case *ssa.Store, *ssa.DebugRef:
+						case *ssa.UnOp:
+							if why := checkRefs(y, depth+1); why != "" {
+								return why
+							}
+						default:
+							return "the variable holding the state struct escapes"
+						}
+					}
+				}
+			default:
+				return "the state struct escapes (" + rf.String() + ")"
+			}
+		}
+		return ""
+	}
+	if why := checkRefs(si.alloc, 0); why != "" {
+		return fail(why)
+	}
+	// the methods: never called directly, only bound in creator on the allocation
+	bc := w.boundClosures()
+	for m := range si.methods {
+		if len(w.p.StaticCallers(m)) > 0 {
+			return fail(FuncKey(m) + " is also called directly")
+		}
+		for _, mc := range bc[m] {
+			if mc.Parent() != si.creator || len(mc.Bindings) != 1 || originValue(mc.Bindings[0]) != ssa.Value(si.alloc) {
+				return fail(FuncKey(m) + " is bound to another receiver than the local state struct")
+			}
+		}
+		for _, u := range w.p.FuncValueUses(m) {
+			if _, isMC := u.(*ssa.MakeClosure); !isMC {
+				return fail(FuncKey(m) + " is used as a value")
+			}
+		}
+	}
+	si.ok = true
+	return si
+}
+
+type c08Frame struct {
+	w      *c08World
+	fn     *ssa.Function
+	parent *c08Frame
+	call   ssa.CallInstruction          // the instruction of parent.fn that enters fn; nil for a root or a callback
+	bind   map[*ssa.Parameter]ssa.Value // parameter -> value in the parent frame
+	kids   map[ssa.Instruction]*c08Frame
+	cbs    map[*ssa.Function]*c08Frame
+	depth  int
+}
+
+func (w *c08World) root(fn *ssa.Function) *c08Frame {
+	return &c08Frame{w: w, fn: fn, kids: map[ssa.Instruction]*c08Frame{}, cbs: map[*ssa.Function]*c08Frame{}}
+}
+
+// c08HelperOf: the function a call enters if that function belongs to the
+// caller's effective body: a function literal, or an unexported function or
+// method of the same package, called statically.
+func c08HelperOf(c CallSite) *ssa.Function {
+	if c.Instr == nil || c.Common().IsInvoke() {
+		return nil
+	}
+	callee := c.Callee()
+	if callee == nil || len(callee.Blocks) == 0 || !InModule(callee) {
+		return nil
+	}
+	if callee.Parent() != nil {
+		return callee
+	}
+	top := TopFunc(c.Fn)
+	if callee.Pkg == nil || top == nil || top.Pkg != callee.Pkg || callee.Synthetic != "" {
+		return nil
+	}
+	if token.IsExported(callee.Name()) {
+		return nil
+	}
+	return callee
+}
+
+// enter: the frame of callee entered by call instruction in of fr.fn; nil when
+// the depth bound is reached or callee is already active (recursion).
+func (fr *c08Frame) enter(in ssa.CallInstruction, callee *ssa.Function) *c08Frame {
+	if k := fr.kids[in]; k != nil {
+		return k
+	}
+	if fr.depth >= c08MaxDepth {
+		return nil
+	}
+	for a := fr; a != nil; a = a.parent {
+		if a.fn == callee {
+			return nil
+		}
+	}
+	k := &c08Frame{w: fr.w, fn: callee, parent: fr, call: in, bind: map[*ssa.Parameter]ssa.Value{},
+		kids: map[ssa.Instruction]*c08Frame{}, cbs: map[*ssa.Function]*c08Frame{}, depth: fr.depth + 1}
+	args := in.Common().Args
+	for i, prm := range callee.Params {
+		if i < len(args) {
+			k.bind[prm] = args[i]
+		}
+	}
+	fr.kids[in] = k
+	return k
+}
+
+// callback: the frame of a function value created in fr and called back by
+// someone else: a literal (free variables resolve by themselves), a declared
+// function, or a method whose receiver recv was bound in fr (`st.visit`).
+func (fr *c08Frame) callback(fn *ssa.Function, recv ssa.Value) *c08Frame {
+	if k := fr.cbs[fn]; k != nil {
+		return k
+	}
+	k := &c08Frame{w: fr.w, fn: fn, parent: fr, bind: map[*ssa.Parameter]ssa.Value{},
+		kids: map[ssa.Instruction]*c08Frame{}, cbs: map[*ssa.Function]*c08Frame{}, depth: fr.depth + 1}
+	if recv != nil && len(fn.Params) > 0 {
+		k.bind[fn.Params[0]] = recv
+	}
+	fr.cbs[fn] = k
+	return k
+}
+
+// of: the frame (fr or an ancestor) whose function value v belongs to; fr for
+// constants, globals and functions; nil when v belongs to no active function.
+func (fr *c08Frame) of(v ssa.Value) *c08Frame {
+	var pf *ssa.Function
+	switch x := v.(type) {
+	case *ssa.Parameter:
+		pf = x.Parent()
+	case *ssa.FreeVar:
+		pf = x.Parent()
+	default:
+		in, ok := v.(ssa.Instruction)
+		if !ok {
+			return fr
+		}
+		pf = in.Parent()
+	}
+	for a := fr; a != nil; a = a.parent {
+		if a.fn == pf {
+			return a
+		}
+	}
+	return nil
+}
+
+func (fr *c08Frame) String() string {
+	if fr.parent == nil {
+		return fr.fn.Name()
+	}
+	return fr.parent.String() + ">" + fr.fn.Name()
+}
+
+// tree: fr and every frame its effective body enters.
+func (fr *c08Frame) tree() []*c08Frame {
+	out := []*c08Frame{fr}
+	for _, c := range CallsIn(fr.fn, false) {
+		if c.Value() == nil {
+			continue
+		}
+		if h := c08HelperOf(c); h != nil {
+			if k := fr.enter(c.Instr, h); k != nil && len(out) < 400 {
+				out = append(out, k.tree()...)
+			}
+		}
+	}
+	return out
+}
+
+// A c08Pos is a position on an explored path: the stack of active frames with
+// the block each is in (and through which predecessor it got there, for phi
+// resolution) and the followed calls that have returned, with the return they
+// took. c08Static(fr) is a position without path knowledge.
+type c08Ctx struct {
+	fr        *c08Frame
+	cur, prev *ssa.BasicBlock
+}
+
+type c08Ret struct {
+	call   *ssa.Call
+	caller *c08Frame
+	kid    *c08Frame
+	ret    *ssa.Return
+	prev   *ssa.BasicBlock
+	next   *c08Ret
+}
+
+type c08Pos struct {
+	stack []c08Ctx
+	rets  *c08Ret
+}
+
+func c08Static(fr *c08Frame) *c08Pos { return &c08Pos{stack: []c08Ctx{{fr: fr}}} }
+
+func (ps *c08Pos) top() c08Ctx { return ps.stack[len(ps.stack)-1] }
+
+func (ps *c08Pos) retOf(call *ssa.Call, caller *c08Frame) *c08Ret {
+	for r := ps.rets; r != nil; r = r.next {
+		if r.call == call && r.caller == caller {
+			return r
+		}
+	}
+	return nil
+}
+
+func (ps *c08Pos) retsSig() string {
+	var sb strings.Builder
+	for r := ps.rets; r != nil; r = r.next {
+		fmt.Fprintf(&sb, "%p:%p:%d;", r.kid, r.ret, c08BlockIndex(r.prev))
+	}
+	return sb.String()
+}
+
+func c08BlockIndex(b *ssa.BasicBlock) int {
+	if b == nil {
+		return -1
+	}
+	return b.Index
+}
+
+// chain resolves value v of frame fr step by step towards its origin:
+// originValue inside a function, a parameter to the caller's argument, a phi
+// by the edge the path came in through, a result of a followed call to the
+// value returned (on this path; without path knowledge when every return of
+// the helper returns the same value), a load of a struct field that is stored
+// exactly once in the module to the stored value. visit sees every stage and
+// ends the resolution by returning true. The last stage is returned.
+func (ps *c08Pos) chain(fr *c08Frame, v ssa.Value, visit func(o ssa.Value, f *c08Frame) bool) (ssa.Value, *c08Frame) {
+	var extra []c08Ctx
+	ctxOf := func(f *c08Frame) (c08Ctx, bool) {
+		for i := len(extra) - 1; i >= 0; i-- {
+			if extra[i].fr == f {
+				return extra[i], true
+			}
+		}
+		for i := len(ps.stack) - 1; i >= 0; i-- {
+			if ps.stack[i].fr == f {
+				return ps.stack[i], true
+			}
+		}
+		return c08Ctx{}, false
+	}
+	for i := 0; i < 48 && v != nil; i++ {
+		o := originValue(v)
+		f := fr.of(o)
+		if f == nil {
+			if visit != nil {
+				visit(o, fr)
+			}
+			return o, fr
+		}
+		if visit != nil && visit(o, f) {
+			return o, f
+		}
+		switch x := o.(type) {
+		case *ssa.Parameter:
+			if b, ok := f.bind[x]; ok && f.parent != nil {
+				v, fr = b, f.parent
+				continue
+			}
+		case *ssa.Phi:
+			if cx, ok := ctxOf(f); ok && cx.cur == x.Block() && cx.prev != nil {
+				if e := c08PredEdge(x, cx.prev); e != nil {
+					v, fr = e, f
+					continue
+				}
+			}
+		case *ssa.Call:
+			if x.Call.Signature().Results().Len() != 1 {
+				break
+			}
+			if nv, nf, cx, ok := ps.result(x, f, 0); ok {
+				if cx.fr != nil {
+					extra = append(extra, cx)
+				}
+				v, fr = nv, nf
+				continue
+			}
+		case *ssa.Extract:
+			if c, isCall := x.Tuple.(*ssa.Call); isCall {
+				if nv, nf, cx, ok := ps.result(c, f, x.Index); ok {
+					if cx.fr != nil {
+						extra = append(extra, cx)
+					}
+					v, fr = nv, nf
+					continue
+				}
+			}
+		case *ssa.UnOp:
+			if val := f.w.singleFieldStore(x); val != nil {
+				g := f.of(val)
+				if g == nil {
+					g = ps.top().fr.of(val)
+				}
+				if g != nil {
+					v, fr = val, g
+					continue
+				}
+			}
+		}
+		return o, f
+	}
+	return v, fr
+}
+
+// result: the value a followed call returns as its result idx.
+func (ps *c08Pos) result(call *ssa.Call, f *c08Frame, idx int) (ssa.Value, *c08Frame, c08Ctx, bool) {
+	if call.Call.Signature().Results().Len() <= idx {
+		return nil, nil, c08Ctx{}, false
+	}
+	if r := ps.retOf(call, f); r != nil {
+		if idx < len(r.ret.Results) {
+			return resolveReturnValue(r.ret.Results[idx], r.ret), r.kid, c08Ctx{r.kid, r.ret.Block(), r.prev}, true
+		}
+		return nil, nil, c08Ctx{}, false
+	}
+	h := c08HelperOf(CallSite{f.fn, call})
+	if h == nil {
+		return nil, nil, c08Ctx{}, false
+	}
+	kid := f.enter(call, h)
+	if kid == nil {
+		return nil, nil, c08Ctx{}, false
+	}
+	var val ssa.Value
+	var vf *c08Frame
+	for _, ri := range Returns(h) {
+		if idx >= len(ri.Results) {
+			return nil, nil, c08Ctx{}, false
+		}
+		o, of := c08Static(kid).chain(kid, ri.Results[idx], nil)
+		if val != nil && (o != val || of != vf) {
+			return nil, nil, c08Ctx{}, false
+		}
+		val, vf = o, of
+	}
+	if val == nil {
+		return nil, nil, c08Ctx{}, false
+	}
+	return val, vf, c08Ctx{}, true
+}
+
+func (ps *c08Pos) resolve(fr *c08Frame, v ssa.Value) (ssa.Value, *c08Frame) {
+	return ps.chain(fr, v, nil)
+}
+
+// find: some stage of the resolution of v satisfies pred.
+func (ps *c08Pos) find(fr *c08Frame, v ssa.Value, pred func(o ssa.Value, f *c08Frame) bool) bool {
+	hit := false
+	ps.chain(fr, v, func(o ssa.Value, f *c08Frame) bool {
+		if pred(o, f) {
+			hit = true
+		}
+		return hit
+	})
+	return hit
+}
+
+// cond strips the negations of a condition; the result is not resolved any
+// further, so that every stage of it can still be inspected.
+func (ps *c08Pos) cond(fr *c08Frame, v ssa.Value) (ssa.Value, *c08Frame, bool) {
+	neg := false
+	for i := 0; i < 8; i++ {
+		var not *ssa.UnOp
+		var nf *c08Frame
+		ps.chain(fr, v, func(o ssa.Value, f *c08Frame) bool {
+			if u, ok := o.(*ssa.UnOp); ok && u.Op == token.NOT {
+				not, nf = u, f
+				return true
+			}
+			return false
+		})
+		if not == nil {
+			break
+		}
+		v, fr, neg = not.X, nf, !neg
+	}
+	return v, fr, neg
+}
+
+// c08XFact: a branch condition (of frame fr) known on every path to a block.
+type c08XFact struct {
+	fr   *c08Frame
+	cond ssa.Value
+	val  bool
+}
+
+// c08FactsX: the dominating facts at block b of frame fr, and at the calls
+// through which fr was entered.
+func c08FactsX(fr *c08Frame, b *ssa.BasicBlock) []c08XFact {
+	var out []c08XFact
+	for f, blk := fr, b; f != nil && blk != nil; {
+		for _, x := range FactsAt(blk) {
+			out = append(out, c08XFact{f, x.Cond, x.Val})
+		}
+		if f.call == nil {
+			break
+		}
+		blk = f.call.Block()
+		f = f.parent
+	}
+	return out
+}
+
+// c08NilFactX: what the facts at (fr, b) say about `is(v) == nil`.
+func c08NilFactX(fr *c08Frame, b *ssa.BasicBlock, is func(ps *c08Pos, f *c08Frame, v ssa.Value) bool) (known, isNil bool) {
+	for _, x := range c08FactsX(fr, b) {
+		ps := c08Static(x.fr)
+		cv, cf, neg := ps.cond(x.fr, x.cond)
+		o, of := ps.resolve(cf, cv)
+		bo, ok := o.(*ssa.BinOp)
+		if !ok || (bo.Op != token.EQL && bo.Op != token.NEQ) {
+			continue
+		}
+		var other ssa.Value
+		switch {
+		case IsNilConst(bo.Y):
+			other = bo.X
+		case IsNilConst(bo.X):
+			other = bo.Y
+		default:
+			continue
+		}
+		if !is(ps, of, other) {
+			continue
+		}
+		return true, ((bo.Op == token.EQL) == x.val) != neg
+	}
+	return false, false
+}
+
+// c08NilCond decides a comparison with nil whose other operand resolves, on
+// this path, to the nil constant or to an expression that is never nil (what a
+// followed helper returned as its error).
+func c08NilCond(ps *c08Pos, fr *c08Frame, cond ssa.Value) (known, val bool) {
+	cv, cf, neg := ps.cond(fr, cond)
+	o, of := ps.resolve(cf, cv)
+	bo, ok := o.(*ssa.BinOp)
+	if !ok || (bo.Op != token.EQL && bo.Op != token.NEQ) {
+		return false, false
+	}
+	var other ssa.Value
+	switch {
+	case IsNilConst(bo.Y):
+		other = bo.X
+	case IsNilConst(bo.X):
+		other = bo.Y
+	default:
+		return false, false
+	}
+	isNil := false
+	hit := ps.find(of, other, func(x ssa.Value, _ *c08Frame) bool {
+		switch {
+		case IsNilConst(x):
+			isNil = true
+			return true
+		case isNonNilErrorExpr(x):
+			return true
+		}
+		return false
+	})
+	if !hit {
+		return false, false
+	}
+	return true, ((bo.Op == token.EQL) == isNil) != neg
+}
+
+// c08Walk explores the paths from an instruction to the exits of the root
+// frame's function, entering the helpers of the effective body at their calls
+// and coming back through their returns.
+type c08Leak struct {
+	exit ssa.Instruction
+	via  []*ssa.BasicBlock
+}
+
+type c08Walk struct {
+	stop     func(ps *c08Pos, fr *c08Frame, in ssa.Instruction) bool
+	assume   func(ps *c08Pos, fr *c08Frame, cond ssa.Value) (known, val bool)
+	exitOK   func(ps *c08Pos, fr *c08Frame, ret *ssa.Return) bool
+	leaks    []c08Leak
+	seen     map[string]bool
+	steps    int
+	overflow bool
+}
+
+func (w *c08Walk) run(fr *c08Frame, start ssa.Instruction) {
+	var stack []c08Ctx
+	stack = append(stack, c08Ctx{fr: fr, cur: start.Block()})
+	for f := fr; f.parent != nil && f.call != nil; f = f.parent {
+		stack = append([]c08Ctx{{fr: f.parent, cur: f.call.Block()}}, stack...)
+	}
+	w.seen = map[string]bool{}
+	w.walk(&c08Pos{stack: stack}, start.Block(), instrIndex(start)+1, nil)
+}
+
+func (w *c08Walk) enterBlock(ps *c08Pos, from, to *ssa.BasicBlock, via []*ssa.BasicBlock) {
+	top := ps.top()
+	pi := -1
+	if len(to.Instrs) > 0 {
+		if _, hasPhi := to.Instrs[0].(*ssa.Phi); hasPhi {
+			pi = c08BlockIndex(from)
+		}
+	}
+	key := fmt.Sprintf("%p/%d/%d/%s", top.fr, to.Index, pi, ps.retsSig())
+	if w.seen[key] {
+		return
+	}
+	w.seen[key] = true
+	st := append([]c08Ctx(nil), ps.stack...)
+	st[len(st)-1] = c08Ctx{fr: top.fr, cur: to, prev: from}
+	w.walk(&c08Pos{stack: st, rets: ps.rets}, to, 0, via)
+}
+
+func (w *c08Walk) walk(ps *c08Pos, b *ssa.BasicBlock, from int, via []*ssa.BasicBlock) {
+	w.steps++
+	if w.steps > 200000 {
+		w.overflow = true
+		return
+	}
+	via = append(via[:len(via):len(via)], b)
+	top := ps.top()
+	for i := from; i < len(b.Instrs); i++ {
+		in := b.Instrs[i]
+		if w.stop(ps, top.fr, in) {
+			return
+		}
+		switch t := in.(type) {
+		case *ssa.Call:
+			h := c08HelperOf(CallSite{top.fr.fn, t})
+			if h == nil {
+				continue
+			}
+			kid := top.fr.enter(t, h)
+			if kid == nil {
+				continue
+			}
+			st := append(append([]c08Ctx(nil), ps.stack...), c08Ctx{fr: kid, cur: h.Blocks[0]})
+			w.walk(&c08Pos{stack: st, rets: ps.rets}, h.Blocks[0], 0, via)
+			return
+		case *ssa.Return:
+			if len(ps.stack) > 1 && top.fr.call != nil {
+				call, _ := top.fr.call.(*ssa.Call)
+				np := &c08Pos{stack: append([]c08Ctx(nil), ps.stack[:len(ps.stack)-1]...), rets: ps.rets}
+				if call != nil {
+					np.rets = &c08Ret{call: call, caller: top.fr.parent, kid: top.fr, ret: t, prev: top.prev, next: ps.rets}
+				}
+				key := fmt.Sprintf("cont/%p/%s", top.fr, np.retsSig())
+				if w.seen[key] {
+					return
+				}
+				w.seen[key] = true
+				w.walk(np, top.fr.call.Block(), instrIndex(top.fr.call)+1, via)
+				return
+			}
+			if w.exitOK == nil || !w.exitOK(ps, top.fr, t) {
+				w.leaks = append(w.leaks, c08Leak{t, append([]*ssa.BasicBlock(nil), via...)})
+			}
+			return
+		case *ssa.Panic:
+			return
+		case *ssa.If:
+			if w.assume != nil && len(b.Succs) == 2 {
+				known, val := c08NilCond(ps, top.fr, t.Cond)
+				if !known {
+					known, val = w.assume(ps, top.fr, t.Cond)
+				}
+				if known {
+					s := b.Succs[1]
+					if val {
+						s = b.Succs[0]
+					}
+					w.enterBlock(ps, b, s, via)
+					return
+				}
+			}
+		}
+	}
+	for _, s := range b.Succs {
+		w.enterBlock(ps, b, s, via)
+	}
+}
+
+// ---------------------------------------------------------------------------
 // the executor (Query): P-match, P-limit, P-postsort, P-truncate
+//
+// The executor is found by role: the function that calls the planner. Its
+// effective body is searched for the one call of <planner result>.send; the
+// callback handed to it may be a literal, a declared function or a bound
+// method (then the state the literal captured lives in the receiver's fields,
+// which are resolved through their single stores).
 
 type c08Exec struct {
 	p        *Program
+	w        *c08World
+	root     *c08Frame
 	fn       *ssa.Function
 	pickCall *ssa.Call
-	cell     *ssa.Alloc // cands
+	qRecv    ssa.Value
+	sendFr   *c08Frame
 	sendCall CallSite
+	cbFr     *c08Frame
 	callback *ssa.Function
 }
 
-// isCandsField: v is a load of field `field` of the cands variable (also from inside literals).
-func (e *c08Exec) isCandsField(v ssa.Value, field string) bool {
-	base, n, f, ok := c08FieldLoad(v)
-	if !ok || f != field || !c08IsType(n, c08Pkg, "candidateSource") {
+// isCands: v is the candidateSource the planner returned.
+func (e *c08Exec) isCands(ps *c08Pos, fr *c08Frame, v ssa.Value) bool {
+	return e.isCandsD(ps, fr, v, 0)
+}
+
+func (e *c08Exec) isCandsD(ps *c08Pos, fr *c08Frame, v ssa.Value, depth int) bool {
+	return ps.find(fr, v, func(o ssa.Value, f *c08Frame) bool {
+		if o == ssa.Value(e.pickCall) {
+			return true
+		}
+		// a load of a variable that holds the planner's result
+		if ld, ok := o.(*ssa.UnOp); ok && ld.Op == token.MUL && depth < c08MaxDepth {
+			if _, isFA := ld.X.(*ssa.FieldAddr); !isFA {
+				return e.holdsCandsD(ps, f, ld.X, depth+1)
+			}
+		}
+		return false
+	})
+}
+
+// holdsCands: addr is the address of a variable whose only assignment is the
+// planner's result (cands itself, a copy of it, a by-value or pointer parameter).
+func (e *c08Exec) holdsCands(ps *c08Pos, fr *c08Frame, addr ssa.Value) bool {
+	return e.holdsCandsD(ps, fr, addr, 0)
+}
+
+func (e *c08Exec) holdsCandsD(ps *c08Pos, fr *c08Frame, addr ssa.Value, depth int) bool {
+	a, af := ps.resolve(fr, addr)
+	cell, ok := varOf(a)
+	if !ok {
 		return false
 	}
-	c, ok := varOf(base)
-	return ok && c == ssa.Value(e.cell)
+	al, ok := cell.(*ssa.Alloc)
+	if !ok {
+		return false
+	}
+	sts := storesTo(al)
+	if len(sts) != 1 {
+		return false
+	}
+	g := af.of(al)
+	if g == nil {
+		return false
+	}
+	return e.isCandsD(ps, g, sts[0].Val, depth)
+}
+
+// isCandsField: v is field `field` of the planner's result.
+func (e *c08Exec) isCandsField(ps *c08Pos, fr *c08Frame, v ssa.Value, field string) bool {
+	return ps.find(fr, v, func(o ssa.Value, f *c08Frame) bool {
+		switch x := o.(type) {
+		case *ssa.UnOp:
+			base, n, fl, ok := c08FieldLoad(x)
+			if !ok || fl != field || !c08Src.is(n) {
+				return false
+			}
+			return e.holdsCands(ps, f, base)
+		case *ssa.Field:
+			n, _ := x.X.Type().(*types.Named)
+			if !c08Src.is(n) || fieldName(x.X.Type(), x.Field) != field {
+				return false
+			}
+			return e.isCands(ps, f, x.X)
+		}
+		return false
+	})
+}
+
+// isQField: v is field `field` of the SearchQuery the planner was called on.
+func (e *c08Exec) isQField(ps *c08Pos, fr *c08Frame, v ssa.Value, field string) bool {
+	return ps.find(fr, v, func(o ssa.Value, f *c08Frame) bool {
+		base, n, fl, ok := c08FieldLoad(o)
+		if !ok || fl != field || !c08IsType(n, c08Pkg, "SearchQuery") {
+			return false
+		}
+		b, _ := ps.resolve(f, base)
+		return b == e.qRecv
+	})
 }
 
 func c08IsQueryField(v ssa.Value, typ, field string) bool {
@@ -1411,13 +2779,19 @@ func c08IsQueryField(v ssa.Value, typ, field string) bool {
 	return ok && f == field && c08IsType(n, c08Pkg, typ)
 }
 
-func c08IsLenOfBlobs(v ssa.Value) bool {
-	c, ok := v.(*ssa.Call)
-	if !ok {
-		return false
-	}
-	b, isB := c.Call.Value.(*ssa.Builtin)
-	return isB && b.Name() == "len" && len(c.Call.Args) == 1 && c08IsQueryField(c.Call.Args[0], "SearchResult", "Blobs")
+func c08FindField(ps *c08Pos, fr *c08Frame, v ssa.Value, typ, field string) bool {
+	return ps.find(fr, v, func(o ssa.Value, f *c08Frame) bool { return c08IsQueryField(o, typ, field) })
+}
+
+func c08IsLenOfBlobs(ps *c08Pos, fr *c08Frame, v ssa.Value) bool {
+	return ps.find(fr, v, func(o ssa.Value, f *c08Frame) bool {
+		c, ok := o.(*ssa.Call)
+		if !ok {
+			return false
+		}
+		b, isB := c.Call.Value.(*ssa.Builtin)
+		return isB && b.Name() == "len" && len(c.Call.Args) == 1 && c08FindField(ps, f, c.Call.Args[0], "SearchResult", "Blobs")
+	})
 }
 
 func c08IsSortCall(c CallSite) bool {
@@ -1451,7 +2825,7 @@ func c08StoreToBlobs(in ssa.Instruction) ssa.Value {
 	return st.Val
 }
 
-func c08FindExec(p *Program, r *Reporter, pick *ssa.Function) []*c08Exec {
+func c08FindExec(p *Program, r *Reporter, w *c08World, pick *ssa.Function) []*c08Exec {
 	var out []*c08Exec
 	for _, cs := range p.StaticCallers(pick) {
 		if IsTestSupportPkg(RelPkg(cs.Fn.Pkg.Pkg)) {
@@ -1460,44 +2834,57 @@ func c08FindExec(p *Program, r *Reporter, pick *ssa.Function) []*c08Exec {
 		key := FuncKey(cs.Fn)
 		site := p.Pos(cs.Pos())
 		call := cs.Value()
-		if call == nil {
+		if call == nil || len(call.Call.Args) == 0 {
 			r.Undecided("P-limit", key+"#pick", site, "pickCandidateSource started by go/defer")
 			continue
 		}
-		e := &c08Exec{p: p, fn: cs.Fn, pickCall: call}
-		if refs := call.Referrers(); refs != nil {
-			for _, rf := range *refs {
-				if st, ok := rf.(*ssa.Store); ok && st.Val == ssa.Value(call) {
-					if al, ok := st.Addr.(*ssa.Alloc); ok && len(storesTo(al)) == 1 {
-						e.cell = al
-					}
+		root := w.root(cs.Fn)
+		e := &c08Exec{p: p, w: w, root: root, fn: cs.Fn, pickCall: call}
+		e.qRecv, _ = c08Static(root).resolve(root, call.Call.Args[0])
+		n := 0
+		for _, fr := range root.tree() {
+			ps := c08Static(fr)
+			for _, c := range CallsIn(fr.fn, false) {
+				if c.Common().IsInvoke() || c.Common().StaticCallee() != nil {
+					continue
+				}
+				if e.isCandsField(ps, fr, c.Common().Value, c08Src.send) {
+					n++
+					e.sendFr, e.sendCall = fr, c
 				}
 			}
 		}
-		if e.cell == nil {
-			r.Undecided("P-limit", key+"#cands", site, "the result of pickCandidateSource is not kept in a single-assignment local variable")
+		if n != 1 || e.sendCall.Value() == nil {
+			r.Undecided("P-limit", key+"#send", site, fmt.Sprintf("expected exactly one direct call of <planner result>.send in the executor's effective body, found %d", n))
 			continue
 		}
-		var sends []CallSite
-		for _, c := range CallsIn(cs.Fn, true) {
-			if c.Common().IsInvoke() {
+		// the callback
+		nf := 0
+		ps := c08Static(e.sendFr)
+		for _, a := range e.sendCall.Common().Args {
+			if _, isSig := a.Type().Underlying().(*types.Signature); !isSig {
 				continue
 			}
-			if e.isCandsField(originValue(c.Common().Value), "send") {
-				sends = append(sends, c)
+			nf++
+			o, f := ps.resolve(e.sendFr, a)
+			switch x := o.(type) {
+			case *ssa.MakeClosure:
+				fn := x.Fn.(*ssa.Function)
+				if t := c08BoundTarget(fn); t != nil && len(x.Bindings) == 1 && len(t.Blocks) > 0 {
+					e.callback, e.cbFr = t, f.callback(t, x.Bindings[0])
+				} else if len(fn.Blocks) > 0 && fn.Synthetic == "" {
+					e.callback, e.cbFr = fn, f.callback(fn, nil)
+				}
+			case *ssa.Function:
+				if len(x.Blocks) > 0 && x.Synthetic == "" {
+					e.callback, e.cbFr = x, f.callback(x, nil)
+				}
 			}
 		}
-		if len(sends) != 1 || sends[0].Fn != cs.Fn || sends[0].Value() == nil {
-			r.Undecided("P-limit", key+"#send", site, fmt.Sprintf("expected exactly one direct call of cands.send in the executor, found %d", len(sends)))
+		if nf != 1 || e.callback == nil {
+			r.Undecided("P-limit", key+"#callback", site, "the callback passed to <planner result>.send is not a single function literal, declared function or bound method")
 			continue
 		}
-		e.sendCall = sends[0]
-		cbs := FuncArgClosures(e.sendCall)
-		if len(cbs) != 1 {
-			r.Undecided("P-limit", key+"#callback", site, "the callback passed to cands.send is not a single function literal")
-			continue
-		}
-		e.callback = cbs[0]
 		out = append(out, e)
 	}
 	return out
@@ -1507,96 +2894,104 @@ func c08RuleExecutor(p *Program, r *Reporter, e *c08Exec, sorts map[int64]string
 	key := FuncKey(e.fn)
 	cb := e.callback
 	matcherFn := p.Func(c08Pkg, "Constraint", "matcher")
+	cbFrames := e.cbFr.tree()
+	r.Analysed("executor_frames", len(cbFrames)+len(e.root.tree()))
 
-	// --- the matcher call inside the callback
+	// --- the matcher call inside the callback's effective body
 	var mcall *ssa.Call
 	nm := 0
-	for _, c := range CallsIn(cb, false) {
-		if c.Common().IsInvoke() || c.Value() == nil {
-			continue
-		}
-		if src, ok := originValue(c.Common().Value).(*ssa.Call); ok && src.Call.StaticCallee() == matcherFn {
+	for _, fr := range cbFrames {
+		ps := c08Static(fr)
+		for _, c := range CallsIn(fr.fn, false) {
+			if c.Common().IsInvoke() || c.Value() == nil || c.Common().StaticCallee() != nil {
+				continue
+			}
+			var src *ssa.Call
+			var sf *c08Frame
+			ps.find(fr, c.Common().Value, func(o ssa.Value, f *c08Frame) bool {
+				if x, ok := o.(*ssa.Call); ok && x.Call.StaticCallee() == matcherFn {
+					src, sf = x, f
+					return true
+				}
+				return false
+			})
+			if src == nil {
+				continue
+			}
 			mcall = c.Value()
 			nm++
 			// same constraint as the planner
-			okSame := false
-			if len(src.Call.Args) == 1 {
-				if base, n, f, ok := c08FieldLoad(originValue(src.Call.Args[0])); ok && f == "Constraint" && c08IsType(n, c08Pkg, "SearchQuery") {
-					okSame = originValue(base) == originValue(e.pickCall.Call.Args[0])
+			okSame := len(src.Call.Args) == 1 && ps.find(sf, src.Call.Args[0], func(o ssa.Value, f *c08Frame) bool {
+				base, n, fl, ok := c08FieldLoad(o)
+				if !ok || fl != "Constraint" || !c08IsType(n, c08Pkg, "SearchQuery") {
+					return false
 				}
-			}
+				b, _ := ps.resolve(f, base)
+				return b == e.qRecv
+			})
 			r.Check(okSame, "P-source-superset", key+"#same-constraint", p.Pos(src.Pos()),
 				"the matcher is compiled from the Constraint of the very SearchQuery the planner was called on",
 				"the matcher applied to the candidates is not compiled from <planner receiver>.Constraint: the planner's restriction is justified by a different constraint than the one matched")
 		}
 	}
 	if nm != 1 {
-		r.Undecided("P-match", key+"#matcher", p.Pos(cb.Pos()), fmt.Sprintf("expected exactly one call of the compiled matcher in the enumeration callback, found %d", nm))
+		r.Undecided("P-match", key+"#matcher", p.Pos(cb.Pos()), fmt.Sprintf("expected exactly one call of the compiled matcher in the enumeration callback's effective body, found %d", nm))
 		return
 	}
 	matchVal := ResultValue(mcall, 0)
 	errVal := ResultValue(mcall, 1)
 
-	underMatch := func(b *ssa.BasicBlock) bool {
-		if matchVal == nil {
-			return false
+	isVal := func(want ssa.Value) func(ps *c08Pos, f *c08Frame, v ssa.Value) bool {
+		return func(ps *c08Pos, f *c08Frame, v ssa.Value) bool {
+			return want != nil && ps.find(f, v, func(o ssa.Value, _ *c08Frame) bool { return o == want })
 		}
-		for _, f := range FactsAt(b) {
-			cond, val := f.Cond, f.Val
-			for {
-				u, ok := cond.(*ssa.UnOp)
-				if !ok || u.Op != token.NOT {
-					break
-				}
-				cond, val = u.X, !val
-			}
-			if val && originValue(cond) == matchVal {
+	}
+	underMatch := func(fr *c08Frame, b *ssa.BasicBlock) bool {
+		for _, x := range c08FactsX(fr, b) {
+			ps := c08Static(x.fr)
+			cv, cf, neg := ps.cond(x.fr, x.cond)
+			if x.val != neg && isVal(matchVal)(ps, cf, cv) {
 				return true
 			}
 		}
 		return false
 	}
-	underSorted := func(b *ssa.BasicBlock) bool {
-		for _, f := range FactsAt(b) {
-			cond, val := f.Cond, f.Val
-			for {
-				u, ok := cond.(*ssa.UnOp)
-				if !ok || u.Op != token.NOT {
-					break
-				}
-				cond, val = u.X, !val
-			}
-			if val && e.isCandsField(originValue(cond), "sorted") {
+	underSorted := func(fr *c08Frame, b *ssa.BasicBlock) bool {
+		for _, x := range c08FactsX(fr, b) {
+			ps := c08Static(x.fr)
+			cv, cf, neg := ps.cond(x.fr, x.cond)
+			if x.val != neg && e.isCandsField(ps, cf, cv, c08Src.sorted) {
 				return true
 			}
 		}
 		return false
 	}
-	errPath := func(b *ssa.BasicBlock) bool {
-		if errVal == nil {
-			return false
-		}
-		k, isNil := NilFact(b, errVal)
+	errPath := func(fr *c08Frame, b *ssa.BasicBlock) bool {
+		k, isNil := c08NilFactX(fr, b, isVal(errVal))
 		return k && !isNil
 	}
-	errNil := func(b *ssa.BasicBlock) bool {
-		if errVal == nil {
-			return false
-		}
-		k, isNil := NilFact(b, errVal)
+	errNil := func(fr *c08Frame, b *ssa.BasicBlock) bool {
+		k, isNil := c08NilFactX(fr, b, isVal(errVal))
 		return k && isNil
 	}
+	mayLose := func(fr *c08Frame, b *ssa.BasicBlock) bool { return errPath(fr, b) || underSorted(fr, b) }
 
-	// --- P-match and P-limit over the callback (nested literals are not expected)
+	// --- P-match and P-limit over the callback's effective body
 	nAppend, nLose := 0, 0
-	for _, b := range cb.Blocks {
-		for _, in := range b.Instrs {
-			if v := c08StoreToBlobs(in); v != nil {
-				switch x := originValue(v).(type) {
+	for _, fr := range cbFrames {
+		ps := c08Static(fr)
+		for _, b := range fr.fn.Blocks {
+			for _, in := range b.Instrs {
+				v := c08StoreToBlobs(in)
+				if v == nil {
+					continue
+				}
+				o, _ := ps.resolve(fr, v)
+				switch x := o.(type) {
 				case *ssa.Call:
 					if bi, ok := x.Call.Value.(*ssa.Builtin); ok && bi.Name() == "append" {
 						nAppend++
-						r.Check(underMatch(b) && errNil(b), "P-match", fmt.Sprintf("%s#append/%d", key, nAppend), p.Pos(in.Pos()),
+						r.Check(underMatch(fr, b) && errNil(fr, b), "P-match", fmt.Sprintf("%s#append/%d", key, nAppend), p.Pos(in.Pos()),
 							"result appended only where the matcher returned (true, nil)",
 							"a candidate is appended to res.Blobs on a path where the matcher did not return (true, nil): non-matching blobs would be returned")
 						continue
@@ -1604,12 +2999,12 @@ func c08RuleExecutor(p *Program, r *Reporter, e *c08Exec, sorts map[int64]string
 					r.Undecided("P-limit", fmt.Sprintf("%s#blobs-store/%s", key, x.Name()), p.Pos(in.Pos()), "res.Blobs assigned from a call the rule does not model")
 				case *ssa.Slice:
 					nLose++
-					r.Check(errPath(b) || underSorted(b), "P-limit", fmt.Sprintf("%s#shrink/%d", key, nLose), p.Pos(in.Pos()),
+					r.Check(mayLose(fr, b), "P-limit", fmt.Sprintf("%s#shrink/%d", key, nLose), p.Pos(in.Pos()),
 						"res.Blobs is shrunk during enumeration only under fact cands.sorted",
 						"res.Blobs is shrunk during enumeration without the fact cands.sorted: with an unsorted source arbitrary matches are dropped before the post-sort")
 				case *ssa.Const:
 					nLose++
-					r.Check(errPath(b) || underSorted(b), "P-limit", fmt.Sprintf("%s#shrink/%d", key, nLose), p.Pos(in.Pos()),
+					r.Check(mayLose(fr, b), "P-limit", fmt.Sprintf("%s#shrink/%d", key, nLose), p.Pos(in.Pos()),
 						"res.Blobs is reset during enumeration only under fact cands.sorted", "res.Blobs is reset during enumeration without the fact cands.sorted")
 				default:
 					r.Undecided("P-limit", fmt.Sprintf("%s#blobs-store", key), p.Pos(in.Pos()), "res.Blobs assigned a value the rule does not model: "+v.String())
@@ -1617,51 +3012,88 @@ func c08RuleExecutor(p *Program, r *Reporter, e *c08Exec, sorts map[int64]string
 			}
 		}
 	}
+	// every value the callback may return: false stops the enumeration
+	var stopOK func(fr *c08Frame, v ssa.Value, b *ssa.BasicBlock, depth int) bool
+	stopOK = func(fr *c08Frame, v ssa.Value, b *ssa.BasicBlock, depth int) bool {
+		if mayLose(fr, b) {
+			return true
+		}
+		o, f := c08Static(fr).resolve(fr, v)
+		if cv, ok := c08ConstBool(o); ok && cv {
+			return true // "continue enumerating" never loses a result
+		}
+		if depth > 6 {
+			return false
+		}
+		switch x := o.(type) {
+		case *ssa.Phi:
+			for i, ed := range x.Edges {
+				if !stopOK(f, ed, x.Block().Preds[i], depth+1) {
+					return false
+				}
+			}
+			return true
+		case *ssa.Call:
+			h := c08HelperOf(CallSite{f.fn, x})
+			if h == nil || h.Signature.Results().Len() != 1 {
+				return false
+			}
+			kid := f.enter(x, h)
+			if kid == nil {
+				return false
+			}
+			for _, ri := range Returns(h) {
+				if len(ri.Results) != 1 || !stopOK(kid, ri.Results[0], ri.Ret.Block(), depth+1) {
+					return false
+				}
+			}
+			return true
+		}
+		return false
+	}
 	nStop := 0
 	for _, ri := range Returns(cb) {
 		if len(ri.Results) != 1 {
 			continue
 		}
 		if cv, ok := c08ConstBool(originValue(ri.Results[0])); ok && cv {
-			continue // "continue enumerating" never loses a result
+			continue
 		}
 		nStop++
 		nLose++
-		b := ri.Ret.Block()
-		// phi of constants: look at each incoming edge that may be false
-		okAll := true
-		if ph, ok := ri.Results[0].(*ssa.Phi); ok {
-			for i, ed := range ph.Edges {
-				if cv, ok := c08ConstBool(originValue(ed)); ok && cv {
-					continue
-				}
-				pb := ph.Block().Preds[i]
-				if !(errPath(pb) || underSorted(pb) || errPath(b) || underSorted(b)) {
-					okAll = false
-				}
-			}
-		} else {
-			okAll = errPath(b) || underSorted(b)
-		}
-		r.Check(okAll, "P-limit", fmt.Sprintf("%s#stop/%d", key, nStop), p.Pos(ri.Ret.Pos()),
+		r.Check(stopOK(e.cbFr, ri.Results[0], ri.Ret.Block(), 0), "P-limit", fmt.Sprintf("%s#stop/%d", key, nStop), p.Pos(ri.Ret.Pos()),
 			"enumeration is stopped early only on the matcher-error path or under fact cands.sorted",
 			"the callback may return false (stop the enumeration) without the fact cands.sorted and not on the error path: with an unsorted source the remaining candidates, which may sort first, are never seen")
 	}
 	r.Floor("P-match", 1)
 	r.Floor("P-limit", 5)
 
-	// --- P-postsort / P-truncate in the executor
-	retRes := map[*ssa.Return][]ssa.Value{}
-	for _, ri := range Returns(e.fn) {
-		retRes[ri.Ret] = ri.Results
-	}
-	exitOK := func(exit ssa.Instruction) bool {
-		ret, ok := exit.(*ssa.Return)
-		if !ok {
+	// --- P-postsort / P-truncate in the executor's effective body
+	exitOK := func(ps *c08Pos, fr *c08Frame, ret *ssa.Return) bool {
+		hasRes := false
+		for i, rv := range ret.Results {
+			if pt, ok := rv.Type().(*types.Pointer); ok && c08IsType(NamedOf(pt.Elem()), c08Pkg, "SearchResult") {
+				hasRes = true
+				o, _ := ps.resolve(fr, resolveReturnValue(ret.Results[i], ret))
+				if IsNilConst(o) {
+					return true // no result returned
+				}
+			}
+		}
+		if hasRes {
 			return false
 		}
-		rs := retRes[ret]
-		return len(rs) > 0 && IsNilConst(originValue(rs[0])) // no result returned
+		// an executor split off the entry point that reports through its error only
+		if n := len(ret.Results); n > 0 && isErrorType(ret.Results[n-1].Type()) {
+			v := resolveReturnValue(ret.Results[n-1], ret)
+			if isNonNilErrorExpr(v) {
+				return true
+			}
+			if k, isNil := NilFact(ret.Block(), v); k && !isNil {
+				return true
+			}
+		}
+		return false
 	}
 	noOrder := map[string]string{
 		"UnspecifiedSort": "no order requested",
@@ -1673,54 +3105,52 @@ func c08RuleExecutor(p *Program, r *Reporter, e *c08Exec, sorts map[int64]string
 		ks = append(ks, k)
 	}
 	sort.Slice(ks, func(i, j int) bool { return ks[i] < ks[j] })
-	qRecv := originValue(e.pickCall.Call.Args[0])
 	for _, k := range ks {
 		name := sorts[k]
 		opaque := false
 		// concrete model for P-truncate: 0 < Limit < len(res.Blobs), with wide gaps so
 		// that comparisons against small literals come out the same for any such world
 		const modelLimit, modelLen = int64(1) << 20, int64(1) << 21
-		model := func(v ssa.Value) (int64, bool) {
-			v = originValue(v)
-			if n, ok := ConstInt(v); ok && n >= 0 && n < 1<<10 {
-				return n, true
+		model := func(ps *c08Pos, fr *c08Frame, v ssa.Value) (int64, bool) {
+			if o, _ := ps.resolve(fr, v); o != nil {
+				if n, ok := ConstInt(o); ok && n >= 0 && n < 1<<10 {
+					return n, true
+				}
 			}
-			if c08IsQueryField(v, "SearchQuery", "Limit") {
+			if c08FindField(ps, fr, v, "SearchQuery", "Limit") {
 				return modelLimit, true
 			}
-			if c08IsLenOfBlobs(v) {
+			if c08IsLenOfBlobs(ps, fr, v) {
 				return modelLen, true
 			}
 			return 0, false
 		}
-		mkAssume := func(withLimit bool) func(cond ssa.Value) (bool, bool) {
-			return func(cond ssa.Value) (bool, bool) {
-				neg := false
-				cond = originValue(cond)
-				for {
-					u, ok := cond.(*ssa.UnOp)
-					if !ok || u.Op != token.NOT {
-						break
-					}
-					cond, neg = originValue(u.X), !neg
-				}
-				if e.isCandsField(cond, "sorted") {
+		mkAssume := func(withLimit bool) func(ps *c08Pos, fr *c08Frame, cond ssa.Value) (bool, bool) {
+			return func(ps *c08Pos, fr *c08Frame, cond ssa.Value) (bool, bool) {
+				cv, cf, neg := ps.cond(fr, cond)
+				if e.isCandsField(ps, cf, cv, c08Src.sorted) {
 					return true, neg // sorted == false
 				}
-				if bo, ok := cond.(*ssa.BinOp); ok {
-					x, y := originValue(bo.X), originValue(bo.Y)
+				o, of := ps.resolve(cf, cv)
+				if bv, ok := c08ConstBool(o); ok {
+					return true, bv != neg
+				}
+				if bo, ok := o.(*ssa.BinOp); ok {
+					x, y := bo.X, bo.Y
 					for side := 0; side < 2; side++ {
 						if side == 1 {
 							x, y = y, x
 						}
-						if base, n, f, ok := c08FieldLoad(x); ok && f == "Sort" && c08IsType(n, c08Pkg, "SearchQuery") && originValue(base) == qRecv {
-							if c, ok := ConstInt(y); ok {
-								l, rr := k, c
-								if side == 1 {
-									l, rr = c, k
-								}
-								if res, ok := c08Cmp(bo.Op, l, rr); ok {
-									return true, res != neg
+						if e.isQField(ps, of, x, "Sort") {
+							if yo, _ := ps.resolve(of, y); yo != nil {
+								if c, ok := ConstInt(yo); ok {
+									l, rr := k, c
+									if side == 1 {
+										l, rr = c, k
+									}
+									if res, ok := c08Cmp(bo.Op, l, rr); ok {
+										return true, res != neg
+									}
 								}
 							}
 							opaque = true
@@ -1728,8 +3158,8 @@ func c08RuleExecutor(p *Program, r *Reporter, e *c08Exec, sorts map[int64]string
 						}
 					}
 					if withLimit {
-						mx, okx := model(bo.X)
-						my, oky := model(bo.Y)
+						mx, okx := model(ps, of, bo.X)
+						my, oky := model(ps, of, bo.Y)
 						if okx && oky && (mx >= modelLimit || my >= modelLimit) {
 							if res, ok := c08Cmp(bo.Op, mx, my); ok {
 								return true, res != neg
@@ -1737,29 +3167,50 @@ func c08RuleExecutor(p *Program, r *Reporter, e *c08Exec, sorts map[int64]string
 						}
 					}
 				}
-				if DependsOn(cond, func(v ssa.Value) bool {
-					return e.isCandsField(v, "sorted") || c08IsQueryField(v, "SearchQuery", "Sort")
-				}) {
+				var dep func(v ssa.Value, f *c08Frame, d int) bool
+				dep = func(v ssa.Value, f *c08Frame, d int) bool {
+					return DependsOn(v, func(y ssa.Value) bool {
+						if _, n, fl, ok := c08FieldLoad(y); ok && fl == c08Src.sorted && c08Src.is(n) {
+							return true
+						}
+						if c08IsQueryField(y, "SearchQuery", "Sort") {
+							return true
+						}
+						if prm, ok := y.(*ssa.Parameter); ok && d < c08MaxDepth {
+							if g := f.of(prm); g != nil && g.parent != nil {
+								if b, ok := g.bind[prm]; ok {
+									return dep(b, g.parent, d+1)
+								}
+							}
+						}
+						return false
+					})
+				}
+				if dep(o, of, 0) {
 					opaque = true
 				}
 				return false, false
 			}
 		}
-		report := func(rule, construct string, leaks []Leak, okDetail, badDetail string) {
+		report := func(rule, construct string, wk *c08Walk, okDetail, badDetail string) {
 			site := p.Pos(e.sendCall.Pos())
-			if len(leaks) == 0 {
+			if wk.overflow {
+				r.Undecided(rule, construct, site, "the paths of the executor's effective body are too many to explore")
+				return
+			}
+			if len(wk.leaks) == 0 {
 				r.OK(rule, construct, site, okDetail)
 				return
 			}
 			var via []string
-			for _, l := range leaks {
-				via = append(via, "exit at "+p.Pos(l.Exit.Pos())+" via blocks "+blockNames(l.Via))
+			for _, l := range wk.leaks {
+				via = append(via, "exit at "+p.Pos(l.exit.Pos())+" via blocks "+blockNames(l.via))
 			}
 			if opaque {
 				r.Undecided(rule, construct, site, "a branch on cands.sorted / q.Sort could not be interpreted; "+strings.Join(via, "; "))
 				return
 			}
-			r.Violation(rule, construct, p.Pos(leaks[0].Exit.Pos()), badDetail+": "+strings.Join(via, "; "))
+			r.Violation(rule, construct, p.Pos(wk.leaks[0].exit.Pos()), badDetail+": "+strings.Join(via, "; "))
 		}
 		// P-postsort
 		c := key + "#unsorted+" + name
@@ -1767,17 +3218,16 @@ func c08RuleExecutor(p *Program, r *Reporter, e *c08Exec, sorts map[int64]string
 			r.OKTable("P-postsort", c, p.Pos(e.sendCall.Pos()), "no post-sort needed: "+why)
 		} else {
 			opaque = false
-			leaks := LeakingExits(PathQuery{
-				Start: e.sendCall.Instr,
-				Stop: func(in ssa.Instruction) bool {
+			wk := &c08Walk{
+				stop: func(ps *c08Pos, fr *c08Frame, in ssa.Instruction) bool {
 					ci, ok := in.(ssa.CallInstruction)
-					return ok && c08IsSortCall(CallSite{e.fn, ci})
+					return ok && c08IsSortCall(CallSite{fr.fn, ci})
 				},
-				Assume:       mkAssume(false),
-				ExitOK:       exitOK,
-				IgnorePanics: true,
-			})
-			report("P-postsort", c, leaks,
+				assume: mkAssume(false),
+				exitOK: exitOK,
+			}
+			wk.run(e.sendFr, e.sendCall.Instr)
+			report("P-postsort", c, wk,
 				"with an unsorted source and q.Sort=="+name+" every path from the enumeration to a non-nil result passes a sort call (or the query is refused)",
 				"with an unsorted source and q.Sort=="+name+" a result is returned without passing any sort call")
 		}
@@ -1787,21 +3237,21 @@ func c08RuleExecutor(p *Program, r *Reporter, e *c08Exec, sorts map[int64]string
 			continue
 		}
 		opaque = false
-		leaks := LeakingExits(PathQuery{
-			Start: e.sendCall.Instr,
-			Stop: func(in ssa.Instruction) bool {
+		wk := &c08Walk{
+			stop: func(ps *c08Pos, fr *c08Frame, in ssa.Instruction) bool {
 				v := c08StoreToBlobs(in)
 				if v == nil {
 					return false
 				}
-				sl, ok := originValue(v).(*ssa.Slice)
+				o, _ := ps.resolve(fr, v)
+				sl, ok := o.(*ssa.Slice)
 				return ok && sl.High != nil
 			},
-			Assume:       mkAssume(true),
-			ExitOK:       exitOK,
-			IgnorePanics: true,
-		})
-		report("P-truncate", c, leaks,
+			assume: mkAssume(true),
+			exitOK: exitOK,
+		}
+		wk.run(e.sendFr, e.sendCall.Instr)
+		report("P-truncate", c, wk,
 			"with an unsorted source, q.Sort=="+name+" and 0<Limit<len(res.Blobs) every path to a non-nil result re-slices res.Blobs with an upper bound (or the query is refused)",
 			"with an unsorted source, q.Sort=="+name+" and 0<Limit<len(res.Blobs) a result is returned without truncating res.Blobs")
 	}
@@ -1823,12 +3273,15 @@ func c08RuleExecutor(p *Program, r *Reporter, e *c08Exec, sorts map[int64]string
 
 // c08MatchSig is the signature behind pkg/search.matchFn.
 func c08MatchSig(p *Program) *types.Signature {
-	n := p.NamedType(c08Pkg, "matchFn")
-	sig, ok := n.Underlying().(*types.Signature)
-	if !ok {
-		brokenf("anchor unresolved: pkg/search.matchFn is not a function type")
+	// by role: what (*Constraint).matcher() hands out
+	mfn := p.Func(c08Pkg, "Constraint", "matcher")
+	if res := mfn.Signature.Results(); res.Len() == 1 {
+		if sig, ok := res.At(0).Type().Underlying().(*types.Signature); ok {
+			return sig
+		}
 	}
-	return sig
+	brokenf("anchor unresolved: pkg/search.(*Constraint).matcher does not return one function")
+	return nil
 }
 
 func c08IsBool(t types.Type) bool {
@@ -1889,7 +3342,7 @@ func c08VerdictOn(c CallSite, k ssa.Value, matchSig *types.Signature, depth int)
 		}
 	}
 	callee := c.Callee()
-	if callee == nil || callee.Blocks == nil || !InModule(callee) || depth >= 2 {
+	if callee == nil || callee.Blocks == nil || !InModule(callee) || depth >= 3 {
 		return false
 	}
 	for _, i := range at {
@@ -1916,7 +3369,7 @@ func c08LocalLoad(v ssa.Value) ssa.Value {
 	for i := instrIndex(ld) - 1; i >= 0; i-- {
 		switch x := ins[i].(type) {
 		case *ssa.Store:
-			if x.Addr == ld.X {
+			if c08SameAddr(x.Addr, ld.X) {
 				return x.Val
 			}
 		case ssa.CallInstruction:
@@ -1924,6 +3377,17 @@ func c08LocalLoad(v ssa.Value) ssa.Value {
 		}
 	}
 	return v
+}
+
+// c08SameAddr: the same address value, or the same field of the same struct
+// pointer computed twice (`st.err = e; if st.err != nil`).
+func c08SameAddr(a, b ssa.Value) bool {
+	if a == b {
+		return true
+	}
+	fa, ok1 := a.(*ssa.FieldAddr)
+	fb, ok2 := b.(*ssa.FieldAddr)
+	return ok1 && ok2 && fa.Field == fb.Field && originValue(fa.X) == originValue(fb.X)
 }
 
 // c08SuccessAt: every path to block b has passed call e and e's error result,
@@ -1975,6 +3439,33 @@ func c08SuccessAt(e *ssa.Call, b *ssa.BasicBlock) bool {
 	return false
 }
 
+// c08MemoWorld is set for the duration of c08RuleMemo.
+var c08MemoWorld *c08World
+
+// c08MemoFuncs: the functions that can touch the memo of guard g: the function
+// family for a memo in a local variable, the creator and the methods of the
+// state struct for a memo in a state field.
+func c08MemoFuncs(g *c08Guard) []*ssa.Function {
+	k, ok := g.id.(c08FieldKey)
+	if !ok || c08MemoWorld == nil {
+		return c08Family(g.fn)
+	}
+	si := c08MemoWorld.state[k.named]
+	if si == nil || !si.ok {
+		return c08Family(g.fn)
+	}
+	out := c08Family(si.creator)
+	var ms []*ssa.Function
+	for m := range si.methods {
+		ms = append(ms, m)
+	}
+	sort.Slice(ms, func(i, j int) bool { return FuncKey(ms[i]) < FuncKey(ms[j]) })
+	for _, m := range ms {
+		out = append(out, c08Family(m)...)
+	}
+	return out
+}
+
 // c08Family: fn's outermost enclosing function and all its literals.
 func c08Family(fn *ssa.Function) []*ssa.Function {
 	var out []*ssa.Function
@@ -1994,6 +3485,14 @@ func c08Family(fn *ssa.Function) []*ssa.Function {
 // local = the map lives in a variable declared in the function family (a fresh
 // map per invocation of the outermost function).
 func c08MapID(m ssa.Value) (id any, name string, local bool) {
+	if ld, ok := m.(*ssa.UnOp); ok && ld.Op == token.MUL && c08MemoWorld != nil {
+		// a field of the state struct of one invocation (a closure turned into a method)
+		if fa, isFA := ld.X.(*ssa.FieldAddr); isFA {
+			if k, ok := c08FieldKeyOf(fa); ok && c08MemoWorld.stateOf(fa).ok {
+				return k, fieldName(fa.X.Type(), fa.Field), true
+			}
+		}
+	}
 	if ld, ok := m.(*ssa.UnOp); ok && ld.Op == token.MUL {
 		if cell, ok := varOf(ld.X); ok {
 			if al, isAl := cell.(*ssa.Alloc); isAl {
@@ -2178,9 +3677,33 @@ func c08IsZeroConst(v ssa.Value) bool {
 // c08Marks finds every value that can become a key of the guard's map.
 func c08Marks(g *c08Guard) (marks []c08Mark, bad string) {
 	seenCell := map[ssa.Value]bool{}
+	seenField := map[c08FieldKey]bool{}
 	var follow func(v ssa.Value, site ssa.Instruction, via string, depth int)
 	follow = func(v ssa.Value, site ssa.Instruction, via string, depth int) {
 		o := originValue(v)
+		if ld, ok := o.(*ssa.UnOp); ok && ld.Op == token.MUL && c08MemoWorld != nil {
+			// a feeder kept in a field of the state struct of one invocation
+			if fa, isFA := ld.X.(*ssa.FieldAddr); isFA {
+				if k, ok := c08FieldKeyOf(fa); ok && c08MemoWorld.stateOf(fa).ok {
+					if seenField[k] {
+						return
+					}
+					seenField[k] = true
+					fi := c08MemoWorld.fields[k]
+					if fi == nil || depth > 4 {
+						bad = "a key of the memo is read from a state field whose writers the rule cannot enumerate"
+						return
+					}
+					for _, st := range fi.stores {
+						if c08IsZeroConst(st.Val) {
+							continue
+						}
+						follow(st.Val, st, fieldName(fa.X.Type(), fa.Field), depth+1)
+					}
+					return
+				}
+			}
+		}
 		if ld, ok := o.(*ssa.UnOp); ok && ld.Op == token.MUL {
 			if cell, ok := varOf(ld.X); ok {
 				al, isAl := cell.(*ssa.Alloc)
@@ -2210,7 +3733,7 @@ func c08Marks(g *c08Guard) (marks []c08Mark, bad string) {
 		}
 		marks = append(marks, c08Mark{site, o, via})
 	}
-	for _, f := range c08Family(g.fn) {
+	for _, f := range c08MemoFuncs(g) {
 		for _, b := range f.Blocks {
 			for _, in := range b.Instrs {
 				mu, ok := in.(*ssa.MapUpdate)
@@ -2230,8 +3753,17 @@ func c08Marks(g *c08Guard) (marks []c08Mark, bad string) {
 // c08MapEscapes: the memo's map value is used for something other than
 // membership tests, updates, nil checks and len — other code could add keys.
 func c08MapEscapes(g *c08Guard) string {
+	fkey, inField := g.id.(c08FieldKey)
+	sameField := func(addr ssa.Value) bool {
+		fa, ok := addr.(*ssa.FieldAddr)
+		if !ok || !inField {
+			return false
+		}
+		k, ok := c08FieldKeyOf(fa)
+		return ok && k == fkey
+	}
 	cell, ok := g.id.(ssa.Value)
-	if !ok {
+	if !ok && !inField {
 		return "the map is not held in a local variable"
 	}
 	check := func(m ssa.Value) string {
@@ -2248,12 +3780,38 @@ func c08MapEscapes(g *c08Guard) string {
 				}
 				return "the map is passed to " + (CallSite{x.Parent(), x}).CalleeKey()
 			case *ssa.Store:
-				if c, ok := varOf(x.Addr); ok && c == cell {
+				if c, ok := varOf(x.Addr); ok && cell != nil && c == cell {
+					continue
+				}
+				if sameField(x.Addr) {
 					continue
 				}
 				return "the map is stored elsewhere"
 			default:
 				return "the map flows into " + rf.String()
+			}
+		}
+		return ""
+	}
+	if inField {
+		// a field of the state struct of one invocation: every load and store of the field, module-wide
+		fi := c08MemoWorld.fields[fkey]
+		if fi == nil || fi.escapes {
+			return "the address of the field holding the map is taken"
+		}
+		for _, ld := range fi.loads {
+			if why := check(ld); why != "" {
+				return why
+			}
+		}
+		for _, st := range fi.stores {
+			switch originValue(st.Val).(type) {
+			case *ssa.MakeMap, *ssa.Const:
+			default:
+				if ld, isLd := st.Val.(*ssa.UnOp); isLd && ld.Op == token.MUL && sameField(ld.X) {
+					continue
+				}
+				return "the memo field is assigned a map made elsewhere"
 			}
 		}
 		return ""
@@ -2299,15 +3857,29 @@ func c08MapEscapes(g *c08Guard) string {
 // `return false` of cb retires every memo local to the parent.
 func c08StopsOnFalse(cb *ssa.Function) (bool, string) {
 	parent := cb.Parent()
+	isCb := func(v ssa.Value) bool {
+		if v == ssa.Value(cb) {
+			return true
+		}
+		mc, ok := v.(*ssa.MakeClosure)
+		return ok && mc.Fn == cb
+	}
+	if parent == nil && c08MemoWorld != nil {
+		// a method of a state struct: the one closure that binds it, in the creator
+		if bcs := c08MemoWorld.boundClosures()[cb]; len(bcs) == 1 {
+			parent = bcs[0].Parent()
+			isCb = func(v ssa.Value) bool { return v == ssa.Value(bcs[0]) }
+		}
+	}
 	res := cb.Signature.Results()
 	if parent == nil || res.Len() != 1 || !c08IsBool(res.At(0).Type()) {
-		return false, "not a func(...) bool literal"
+		return false, "not a func(...) bool literal or bound method of a per-invocation state struct"
 	}
 	var site *ssa.Call
 	argIdx := -1
 	for _, b := range parent.Blocks {
 		for _, in := range b.Instrs {
-			if mc, ok := in.(*ssa.MakeClosure); ok && mc.Fn == cb {
+			if mc, ok := in.(*ssa.MakeClosure); ok && isCb(mc) {
 				continue
 			}
 			if _, ok := in.(*ssa.DebugRef); ok {
@@ -2317,11 +3889,7 @@ func c08StopsOnFalse(cb *ssa.Function) (bool, string) {
 				if *op == nil {
 					continue
 				}
-				isCb := *op == ssa.Value(cb)
-				if mc, ok := (*op).(*ssa.MakeClosure); ok && mc.Fn == cb {
-					isCb = true
-				}
-				if !isCb {
+				if !isCb(*op) {
 					continue
 				}
 				call, ok := in.(*ssa.Call)
@@ -2393,89 +3961,112 @@ func c08StopsOnFalse(cb *ssa.Function) (bool, string) {
 			}
 			f, idx = next, nidx
 		}
-		if f.Blocks == nil || idx >= len(f.Params) {
-			return false, "enumerator " + FuncKey(f) + " has no body to inspect"
-		}
-		prm := f.Params[idx]
-		var calls []*ssa.Call
-		if refs := prm.Referrers(); refs != nil {
-			for _, rf := range *refs {
-				switch x := rf.(type) {
-				case *ssa.DebugRef:
-				case *ssa.Call:
-					if x.Call.Value != ssa.Value(prm) {
-						return false, FuncKey(f) + " passes its callback on"
-					}
-					calls = append(calls, x)
-				default:
-					return false, FuncKey(f) + " does more with its callback than call it"
-				}
-			}
-		}
-		if len(calls) == 0 {
-			return false, FuncKey(f) + " never calls its callback directly"
-		}
-		hasCall := func(b *ssa.BasicBlock) bool {
-			for _, c := range calls {
-				if c.Block() == b {
-					return true
-				}
-			}
-			return false
-		}
-		for _, c := range calls {
-			refs := c.Referrers()
-			n := 0
-			if refs != nil {
-				for _, rf := range *refs {
-					if _, ok := rf.(*ssa.DebugRef); ok {
-						continue
-					}
-					n++
-					cond, neg := ssa.Value(c), false
-					var ifi *ssa.If
-					switch x := rf.(type) {
-					case *ssa.If:
-						ifi = x
-					case *ssa.UnOp:
-						if x.Op == token.NOT {
-							cond, neg = x, true
-							if rr := x.Referrers(); rr != nil {
-								for _, r2 := range nonDebug(*rr) {
-									if i2, ok := r2.(*ssa.If); ok && len(nonDebug(*rr)) == 1 {
-										ifi = i2
-									}
-								}
-							}
-						}
-					}
-					if ifi == nil || ifi.Cond != cond || len(ifi.Block().Succs) != 2 {
-						return false, FuncKey(f) + " does not branch directly on its callback's result"
-					}
-					onFalse := ifi.Block().Succs[1]
-					if neg {
-						onFalse = ifi.Block().Succs[0]
-					}
-					for b := range BlocksFrom(onFalse) {
-						if hasCall(b) {
-							return false, FuncKey(f) + " may call its callback again after it returned false"
-						}
-					}
-				}
-			}
-			if n == 0 {
-				return false, FuncKey(f) + " ignores its callback's result"
-			}
+		if ok, why := c08EnumStops(f, idx, 0); !ok {
+			return false, why
 		}
 	}
 	return true, ""
 }
 
-func c08RuleMemo(p *Program, r *Reporter) {
+// c08EnumStops: enumerator f never calls its callback parameter idx again once
+// it returned false: every call of the callback is branched on directly and
+// the false edge reaches no further call; handing the callback on to one
+// static helper outside any loop is followed (the helper must satisfy the same).
+func c08EnumStops(f *ssa.Function, idx int, depth int) (bool, string) {
+	if f.Blocks == nil || idx >= len(f.Params) {
+		return false, "enumerator " + FuncKey(f) + " has no body to inspect"
+	}
+	prm := f.Params[idx]
+	var calls []*ssa.Call
+	if refs := prm.Referrers(); refs != nil {
+		for _, rf := range *refs {
+			switch x := rf.(type) {
+			case *ssa.DebugRef:
+			case *ssa.Call:
+				if x.Call.Value != ssa.Value(prm) {
+					// handed on: the only use, outside any loop, to a static function with a body
+					g := x.Call.StaticCallee()
+					k := -1
+					for i, a := range x.Call.Args {
+						if a == ssa.Value(prm) {
+							k = i
+						}
+					}
+					if g == nil || len(g.Blocks) == 0 || k < 0 || k >= len(g.Params) || depth >= 3 || c08LoopDepth(x.Block()) > 0 || len(nonDebug(*refs)) != 1 {
+						return false, FuncKey(f) + " passes its callback on in a way the rule cannot follow"
+					}
+					return c08EnumStops(g, k, depth+1)
+				}
+				calls = append(calls, x)
+			default:
+				return false, FuncKey(f) + " does more with its callback than call it"
+			}
+		}
+	}
+	if len(calls) == 0 {
+		return false, FuncKey(f) + " never calls its callback directly"
+	}
+	hasCall := func(b *ssa.BasicBlock) bool {
+		for _, c := range calls {
+			if c.Block() == b {
+				return true
+			}
+		}
+		return false
+	}
+	for _, c := range calls {
+		refs := c.Referrers()
+		n := 0
+		if refs != nil {
+			for _, rf := range *refs {
+				if _, ok := rf.(*ssa.DebugRef); ok {
+					continue
+				}
+				n++
+				cond, neg := ssa.Value(c), false
+				var ifi *ssa.If
+				switch x := rf.(type) {
+				case *ssa.If:
+					ifi = x
+				case *ssa.UnOp:
+					if x.Op == token.NOT {
+						cond, neg = x, true
+						if rr := x.Referrers(); rr != nil {
+							for _, r2 := range nonDebug(*rr) {
+								if i2, ok := r2.(*ssa.If); ok && len(nonDebug(*rr)) == 1 {
+									ifi = i2
+								}
+							}
+						}
+					}
+				}
+				if ifi == nil || ifi.Cond != cond || len(ifi.Block().Succs) != 2 {
+					return false, FuncKey(f) + " does not branch directly on its callback's result"
+				}
+				onFalse := ifi.Block().Succs[1]
+				if neg {
+					onFalse = ifi.Block().Succs[0]
+				}
+				for b := range BlocksFrom(onFalse) {
+					if hasCall(b) {
+						return false, FuncKey(f) + " may call its callback again after it returned false"
+					}
+				}
+			}
+		}
+		if n == 0 {
+			return false, FuncKey(f) + " ignores its callback's result"
+		}
+	}
+	return true, ""
+}
+
+func c08RuleMemo(p *Program, r *Reporter, w *c08World) {
+	c08MemoWorld = w
+	defer func() { c08MemoWorld = nil }()
 	matchSig := c08MatchSig(p)
 	// anchors: the matcher entry points the memo rule is about
 	p.Func(c08Pkg, "Constraint", "matcher")
-	p.Func(c08Pkg, "RelationConstraint", "match")
 	fns := p.FuncsIn(c08Pkg)
 	r.Analysed("memo_functions", len(fns))
 	nOther, nValue := 0, 0
@@ -2537,7 +4128,7 @@ func c08RuleMemo(p *Program, r *Reporter) {
 			stops, whyNot := c08StopsOnFalse(fn)
 			// no other function of the family may consult the memo after a stop
 			if stops {
-				for _, f := range c08Family(fn) {
+				for _, f := range c08MemoFuncs(g) {
 					if f == fn {
 						continue
 					}
@@ -2634,33 +4225,168 @@ func c08RuleMemo(p *Program, r *Reporter) {
 
 // ---------------------------------------------------------------------------
 
-func runC08(p *Program, r *Reporter) {
-	pick := p.Func(c08Pkg, "SearchQuery", "pickCandidateSource")
-	// anchors by name (exit 2 when renamed): the four predicates the source table refers to
-	named := []*ssa.Function{
-		p.Func(c08Pkg, "Constraint", "matchesPermanodeTypes"),
-		p.Func(c08Pkg, "Constraint", "matchesAtMostOneBlob"),
-		p.Func(c08Pkg, "Constraint", "onlyMatchesPermanode"),
-		p.Func(c08Pkg, "Constraint", "matchesFileByWholeRef"),
+// c08SrcRole: the planner's result type and its fields, by role: the struct has
+// one string (the source's name), one bool (the 'comes in the requested order'
+// flag) and one function (the enumeration) — whatever they are called.
+type c08SrcRole struct {
+	named              *types.Named
+	name, sorted, send string
+}
+
+var c08Src c08SrcRole
+
+func (s c08SrcRole) is(n *types.Named) bool {
+	return n != nil && s.named != nil && n.Origin() == s.named.Origin()
+}
+
+// c08IsPlanner: fn returns one struct of pkg/search with exactly one string
+// field, one bool field and one function field that takes a callback.
+func c08IsPlanner(fn *ssa.Function) (c08SrcRole, bool) {
+	var role c08SrcRole
+	res := fn.Signature.Results()
+	if res.Len() != 1 {
+		return role, false
 	}
-	// by role: every *Constraint method the planner calls is a planner predicate
+	n, _ := res.At(0).Type().(*types.Named)
+	st := c08Struct(n)
+	if st == nil || n.Obj().Pkg() == nil || n.Obj().Pkg().Path() != modPrefix+c08Pkg {
+		return role, false
+	}
+	role.named = n
+	for i := 0; i < st.NumFields(); i++ {
+		f := st.Field(i)
+		switch t := f.Type().Underlying().(type) {
+		case *types.Basic:
+			switch {
+			case t.Kind() == types.String && role.name == "":
+				role.name = f.Name()
+			case t.Kind() == types.Bool && role.sorted == "":
+				role.sorted = f.Name()
+			case t.Kind() == types.String || t.Kind() == types.Bool:
+				return role, false // two candidates for one role
+			}
+		case *types.Signature:
+			hasCb := false
+			for j := 0; j < t.Params().Len(); j++ {
+				if _, ok := t.Params().At(j).Type().Underlying().(*types.Signature); ok {
+					hasCb = true
+				}
+			}
+			if !hasCb || role.send != "" {
+				return role, false
+			}
+			role.send = f.Name()
+		}
+	}
+	return role, role.name != "" && role.sorted != "" && role.send != ""
+}
+
+func runC08(p *Program, r *Reporter) {
+	if os.Getenv("PKVERIFY_C08_TIMING") != "" {
+		t0 := time.Now()
+		defer func() { fmt.Fprintf(os.Stderr, "C08 rules: %.2fs\n", time.Since(t0).Seconds()) }()
+	}
+	// the planner: by name, or (renamed) by role — the one *SearchQuery method returning a candidate source
+	pick := p.LookupFunc(c08Pkg, "SearchQuery", "pickCandidateSource")
+	if pick == nil {
+		var cands []*ssa.Function
+		for _, fn := range p.FuncsIn(c08Pkg) {
+			if fn.Parent() != nil || fn.Signature.Recv() == nil || !c08IsType(NamedOf(fn.Signature.Recv().Type()), c08Pkg, "SearchQuery") {
+				continue
+			}
+			if _, ok := c08IsPlanner(fn); ok {
+				cands = append(cands, fn)
+			}
+		}
+		if len(cands) != 1 {
+			brokenf("anchor unresolved: pkg/search.(*SearchQuery).pickCandidateSource not found, and %d methods of *SearchQuery return a candidate source", len(cands))
+		}
+		pick = cands[0]
+	}
+	role, ok := c08IsPlanner(pick)
+	if !ok {
+		brokenf("anchor unresolved: %s does not return a struct of one string, one bool and one enumeration function", FuncKey(pick))
+	}
+	c08Src = role
+	// the four predicates the source table refers to: by name, a renamed one by role (below)
+	canon := []string{"matchesPermanodeTypes", "matchesAtMostOneBlob", "onlyMatchesPermanode", "matchesFileByWholeRef"}
+	roles := map[*ssa.Function]string{}
+	var named []*ssa.Function
+	for _, n := range canon {
+		if f := p.LookupFunc(c08Pkg, "Constraint", n); f != nil {
+			roles[f] = n
+			named = append(named, f)
+		}
+	}
+	// by role: every recursive *Constraint method the planner's effective body calls is a
+	// planner predicate (a non-recursive one is a helper and is read as part of its caller)
 	predSet := map[*ssa.Function]bool{}
 	var preds []*ssa.Function
-	for _, c := range CallsIn(pick, true) {
-		f := c.Common().StaticCallee()
-		if f == nil || f.Signature.Recv() == nil || !InModule(f) {
-			continue
+	seenFn := map[*ssa.Function]bool{pick: true}
+	work := []*ssa.Function{pick}
+	for depth := 0; depth <= c08MaxDepth && len(work) > 0; depth++ {
+		var next []*ssa.Function
+		for _, fn := range work {
+			for _, c := range CallsIn(fn, true) {
+				f := c.Common().StaticCallee()
+				if f == nil || !InModule(f) || seenFn[f] {
+					continue
+				}
+				if f.Signature.Recv() != nil && c08IsType(NamedOf(f.Signature.Recv().Type()), c08Pkg, "Constraint") && c08Recursive(f) {
+					seenFn[f] = true
+					predSet[f] = true
+					preds = append(preds, f)
+					continue
+				}
+				if h := c08HelperOf(c); h != nil && !seenFn[h] {
+					seenFn[h] = true
+					next = append(next, h)
+				}
+			}
 		}
-		if c08IsType(NamedOf(f.Signature.Recv().Type()), c08Pkg, "Constraint") && !predSet[f] {
-			predSet[f] = true
-			preds = append(preds, f)
-		}
+		work = next
 	}
 	for _, f := range named {
 		if !predSet[f] {
 			r.Note("planner predicate %s is no longer called from pickCandidateSource; still checked", FuncKey(f))
 			predSet[f] = true
 			preds = append(preds, f)
+		}
+	}
+	// a predicate that no longer has its name is recognised by its role: the result type, and
+	// for the boolean ones the constraint field its leaf case looks at (Permanode / File)
+	taken := map[string]bool{}
+	for _, n := range roles {
+		taken[n] = true
+	}
+	for _, f := range preds {
+		if roles[f] != "" {
+			continue
+		}
+		role := ""
+		switch c08ResultKind(f) {
+		case c08Slice:
+			role = "matchesPermanodeTypes"
+		case c08Ref:
+			role = "matchesAtMostOneBlob"
+		case c08Bool:
+			reads := c08ConstraintFieldsRead(f)
+			switch {
+			case reads["Permanode"] && !reads["File"]:
+				role = "onlyMatchesPermanode"
+			case reads["File"] && !reads["Permanode"]:
+				role = "matchesFileByWholeRef"
+			}
+		}
+		if role != "" && !taken[role] {
+			taken[role] = true
+			roles[f] = role
+			r.Note("planner predicate %s takes the role of %s", FuncKey(f), role)
+		}
+	}
+	for _, n := range canon {
+		if !taken[n] {
+			brokenf("anchor unresolved: no planner predicate with the name or the role of pkg/search.(*Constraint).%s", n)
 		}
 	}
 	sort.Slice(preds, func(i, j int) bool { return FuncKey(preds[i]) < FuncKey(preds[j]) })
@@ -2683,12 +4409,13 @@ func runC08(p *Program, r *Reporter) {
 		brokenf("anchor unresolved: expected >= 8 exported SortType constants in pkg/search, found %d", len(sorts))
 	}
 
-	leaves := c08RulePredicates(p, r, preds)
-	c08RuleLeaf(p, r, leaves, predSet)
-	c08RulePlanner(p, r, pick, predSet, sorts)
-	c08RuleNoDup(p, r)
-	c08RuleMemo(p, r)
-	execs := c08FindExec(p, r, pick)
+	world := &c08World{p: p}
+	leaves := c08RulePredicates(p, r, world, preds)
+	c08RuleLeaf(p, r, leaves, predSet, roles)
+	c08RulePlanner(p, r, world, pick, predSet, roles, sorts)
+	c08RuleNoDup(p, r, world)
+	c08RuleMemo(p, r, world)
+	execs := c08FindExec(p, r, world, pick)
 	if len(execs) == 0 {
 		r.Undecided("P-limit", FuncKey(pick)+"#executor", p.Pos(pick.Pos()), "no analysable caller of pickCandidateSource found")
 	}
@@ -2696,6 +4423,58 @@ func runC08(p *Program, r *Reporter) {
 		c08RuleExecutor(p, r, e, sorts)
 	}
 	c08RuleFresh(p, r)
+}
+
+// c08ConstraintFieldsRead: the fields of the receiver (a *Constraint) that the
+// effective body of predicate f reads.
+func c08ConstraintFieldsRead(f *ssa.Function) map[string]bool {
+	out := map[string]bool{}
+	seen := map[*ssa.Function]bool{}
+	var walk func(g *ssa.Function, depth int)
+	walk = func(g *ssa.Function, depth int) {
+		if seen[g] || depth > c08MaxDepth {
+			return
+		}
+		seen[g] = true
+		for _, b := range g.Blocks {
+			for _, in := range b.Instrs {
+				if fa, ok := in.(*ssa.FieldAddr); ok {
+					if _, n, fl, ok := c08FieldAddr(fa); ok && c08IsType(n, c08Pkg, "Constraint") {
+						out[fl] = true
+					}
+				}
+			}
+		}
+		for _, c := range CallsIn(g, true) {
+			if h := c08HelperOf(c); h != nil && h != f {
+				walk(h, depth+1)
+			}
+		}
+	}
+	walk(f, 0)
+	return out
+}
+
+// c08Recursive: f calls itself, directly or through the helpers of its effective body.
+func c08Recursive(f *ssa.Function) bool {
+	seen := map[*ssa.Function]bool{}
+	var walk func(g *ssa.Function, depth int) bool
+	walk = func(g *ssa.Function, depth int) bool {
+		if seen[g] || depth > c08MaxDepth {
+			return false
+		}
+		seen[g] = true
+		for _, c := range CallsIn(g, true) {
+			if c.Common().StaticCallee() == f {
+				return true
+			}
+			if h := c08HelperOf(c); h != nil && walk(h, depth+1) {
+				return true
+			}
+		}
+		return false
+	}
+	return walk(f, 0)
 }
 
 // c08RuleFresh is C06's K-inval reported under C08 as P-fresh (like E-close/G-enum):
@@ -2734,6 +4513,7 @@ type c08LeafPath struct {
 	paths []c08Path
 	idx   int
 	ret   *ssa.Return
+	xp    *c08XPath // the composite path (which path each followed helper takes)
 }
 
 // c08Fact is what a predicate path knows about one field.
@@ -2862,6 +4642,7 @@ type c08LeafAn struct {
 type c08LeafEnv struct {
 	an     *c08LeafAn
 	fn     *ssa.Function
+	xp     *c08XPath // the composite path under analysis: fixes the path a followed helper takes
 	pth    c08Path
 	params map[ssa.Value]c08Inst
 	depth  int
@@ -3173,12 +4954,18 @@ func (e *c08LeafEnv) helperWorlds(call *ssa.Call) ([]c08HelperWorld, bool) {
 		return nil, false
 	}
 	outs := c08Outcomes(paths)
+	only := -1
+	if e.xp != nil {
+		if n := e.xp.followed(call); n != nil && n.fn == f && n.idx < len(paths) {
+			only = n.idx
+		}
+	}
 	var out []c08HelperWorld
 	for pi, pth := range paths {
-		if outs[pi].ret == nil || len(outs[pi].ret.Results) != 1 {
+		if outs[pi].ret == nil || len(outs[pi].ret.Results) != 1 || (only >= 0 && pi != only) {
 			continue
 		}
-		he := &c08LeafEnv{an: e.an, fn: f, pth: pth, params: params, depth: e.depth + 1}
+		he := &c08LeafEnv{an: e.an, fn: f, xp: e.xp, pth: pth, params: params, depth: e.depth + 1}
 		for _, alt := range he.pathFacts(paths, outs, pi) {
 			out = append(out, c08HelperWorld{he, alt, outs[pi].ret.Results[0]})
 		}
@@ -3196,7 +4983,7 @@ type c08Level struct {
 func (an *c08LeafAn) worlds(lp c08LeafPath) []map[string]*c08Level {
 	root := c08Inst{path: "c", named: an.p.NamedType(c08Pkg, "Constraint")}
 	an.insts["c"] = root
-	e := &c08LeafEnv{an: an, fn: lp.fn, pth: lp.paths[lp.idx], params: map[ssa.Value]c08Inst{lp.fn.Params[0]: root}}
+	e := &c08LeafEnv{an: an, fn: lp.fn, xp: lp.xp, pth: lp.paths[lp.idx], params: map[ssa.Value]c08Inst{lp.fn.Params[0]: root}}
 	outs := c08Outcomes(lp.paths)
 	alts := e.pathFacts(lp.paths, outs, lp.idx)
 	// the returned value itself
@@ -5260,7 +7047,18 @@ func c08ConjunctiveSlice(p *Program, r *Reporter, gen *c08Member) {
 
 // ---- the rule
 
-func c08RuleLeaf(p *Program, r *Reporter, leaves []c08LeafPath, preds map[*ssa.Function]bool) {
+func c08RuleLeaf(p *Program, r *Reporter, leaves []c08LeafPath, preds map[*ssa.Function]bool, roles map[*ssa.Function]string) {
+	// exceptions are recorded under the canonical name of the predicate's role
+	canonKey := map[string]string{}
+	for f, role := range roles {
+		canonKey[FuncKey(f)] = "pkg/search.(*Constraint)." + role
+	}
+	excKey := func(pk string) string {
+		if ck, ok := canonKey[pk]; ok {
+			return ck
+		}
+		return pk
+	}
 	an := &c08LeafAn{p: p, preds: preds, insts: map[string]c08Inst{}, matchers: map[string]*c08Matcher{}, members: map[*ssa.Function]map[*ssa.Parameter]*c08Member{}, cache: map[string]c08FieldRes{}, dyn: map[string]*c08DynRes{}, pure: map[*ssa.Function]int{}}
 	type row struct {
 		res    c08FieldRes
@@ -5318,7 +7116,7 @@ func c08RuleLeaf(p *Program, r *Reporter, leaves []c08LeafPath, preds map[*ssa.F
 						continue
 					}
 					exc := ""
-					if e, ok := c08LeafParamFields[pk+"|"+sn+"."+F]; ok {
+					if e, ok := c08LeafParamFields[excKey(pk)+"|"+sn+"."+F]; ok {
 						exc = e.typ
 					}
 					res := an.checkField(m, lv.tested, F, exc)
@@ -5355,7 +7153,7 @@ func c08RuleLeaf(p *Program, r *Reporter, leaves []c08LeafPath, preds map[*ssa.F
 			r.OK("P-leaf", k, site, x.res.detail)
 		case "exception":
 			pk := k[:strings.Index(k, "#")]
-			e := c08LeafParamFields[pk+"|"+k[strings.Index(k, "#leaf/")+6:]]
+			e := c08LeafParamFields[excKey(pk)+"|"+k[strings.Index(k, "#leaf/")+6:]]
 			r.OKTable("P-leaf", k, site, "recorded exception (re-checked: every use outside its own set-test hands the value on as a "+e.typ+" call argument): "+e.reason)
 		case "modal":
 			r.Violation("P-leaf", k, site, "the predicate derives a restricting result without testing "+F+", but "+F+" is MODAL in the matcher: "+x.res.detail+". A constraint with "+F+" set can match blobs outside the restricted candidate source, which are then missed")
